@@ -1,14 +1,17 @@
 /-
-C03W — the closed-world "no lost wake-up" invariant (property C03): stages S1, A, B and C.
+C03W — the closed-world "no lost wake-up" invariant (property C03): stages S1, A, B, C, and
+mid-run RE-WIRING (stages R, RA, RC).
 
 "Whenever simulated time is about to advance, no device is holding a part that is ready to leave
 while one of its downstream neighbours would accept that part if it were offered; every blocked
-part is genuinely blocked."
+part is genuinely blocked.  Every change that can unblock a part (…, CONNECTION ADDED) leads to a
+new hand-over attempt at that same instant."
 
 STAGE S1.  SCOPE (`S1 w`, decidable, preserved by every step — `Proofs/C03WDefs.lean`): only sources,
 handlers, processors WITHOUT resource requirement, buffers (delay ≥ 0), gates and sinks;
 receive/finish callbacks may change cycle time and offset of the device but not the part; sources
-generate single parts and have no upstream neighbour; wiring symmetric and in range; asset ids of
+generate single parts and have no upstream neighbour; every downstream connection is in range and
+has its upstream counterpart (`y ∈ down x → x ∈ up y`; the converse is not needed); asset ids of
 devices pairwise distinct; no cycle through gates only (every chain of gates has at most
 `devs.length` gates and no device reaches itself through gates); maintenance targets are processors;
 scripts contain no `rewire`, no `create`, and `pause / unpause / cancel` only for asset ids that are
@@ -45,9 +48,60 @@ the conditions `ScrB`, `SizesPos` of the conservation theorem are required (the 
 NOT covered: several groups (in sequence or nested).  Simulation of such worlds shows no violation,
 but the proof needs an invariant on the group-path stacks of the parts in flight (each entry's group
 owns the output the part will leave through) that the one-group restriction makes trivial.
-`S1 w ↔ SC w ∧ hasRes w = false ∧ NoBatch w ∧ PartsLeaf w` (`S1_iff`), `S2 w = S3 w ∧ NoBatch w`,
-`S3 w = S4 w ∧ NoGroups w`,
-`S4 w = SC w ∧ (hasRes w → C11W.S w) ∧ (¬ NoBatch w → ScrB w ∧ SizesPos w)`.
+`S1 w ↔ SC w ∧ hasRes w = false ∧ NoBatch w ∧ PartsLeaf w ∧ NR w` (`S1_iff`; `NR`: no script re-wires),
+`S2 w = S3 w ∧ NoBatch w`, `S3 w = S4 w ∧ NoGroups w`,
+`S4 w = (SC w ∧ NR w) ∧ (hasRes w → C11W.S w) ∧ (¬ NoBatch w → ScrB w ∧ SizesPos w)`.
+
+RE-WIRING.  The machinery's scope `SC w` (decidable) admits `rewire x ups` in scripts:
+  * `RewOK w x ups` (per operation, a condition on the static world, independent of the order in
+    which the scripts run): `x` exists; a source / a group input gets no upstream neighbour; `x` is
+    nobody's downstream neighbour twice (`set_upstream` removes ONE entry per old upstream
+    neighbour);
+  * `EnvOK w` (on the script text): the controller conditions (`costLe`, `cReach`) hold for the
+    ENVELOPE `envl w` — the wiring plus every connection `u → x` that some `rewire x ups`, `u ∈ ups`,
+    of a script may add.  Every wiring that the scripts can ever produce is a sub-wiring of the
+    envelope (`SC.rewired`, `TopoSub`), so the class is preserved by every step INCLUDING the
+    re-wiring steps (`s1r_step`, `wakeE_step`, `G.rewireG`).
+  For a re-wiring issued from OUTSIDE between two events the conditions are checked on the current
+  world: `RewOK w x ups ∧ SC (w.rewire x ups)` (`G.rewireD`).
+  `rewire` tells a new upstream neighbour about the space downstream only if that neighbour has been
+  initialised: the worlds must satisfy the registration invariant `C20W.Reg` (every device is
+  registered; C20W proves that every registered device is initialised by `simulateInit`), carried
+  as `Ini w` / `IOK w = NR w ∨ Ini w` (`Proofs/C03YIni.lean`).
+STAGE R  (`S1R w ⊇ S1 w` = `SC` without requirements, batchers, batches, groups; scripts may
+  re-wire): `wakeR_init`, `wakeR_step`, `s1r_step`, `wakeR_applyOp`, `wakeR_rewire`, `ReachR`
+  (events, runs, outside operations from the scripts' vocabulary, outside re-wirings),
+  `wakeR_reachable`, `blocked_genuinely_rewire`, `no_lost_wakeup_rewire`,
+  **`no_lost_wakeup_rewire_reachable`**, `connection_added` (the new upstream neighbour's attempt is
+  queued at that same instant if the newly connected device would accept), `connection_removed`.
+STAGE RA (`S2R w ⊇ S1R w`: processors may declare requirements AND scripts may re-wire; if a
+  requirement is declared, `C11W.S` must hold for the scripts WITHOUT their re-wirings, `S11R`):
+  the resource invariant `C11W.Inv` is carried for the world without its scripts (`es w []` — no
+  function of the model but `runScript` reads the scripts: `Proofs/C03YEs*.lean`), a script run is
+  handled operation by operation (`C11W.inv_applyOp` / `inv11_rewire`): `wakeE_init`, `wakeE_step`,
+  `wakeE_reachable`, **`no_lost_wakeupA_rewire_reachable`**.
+STAGE RC (scopes `S2 ⊆ S3 ⊆ S4` as they are — scripts without re-wiring —, re-wiring issued from
+  OUTSIDE: the invariants of C11W / C17W are not disturbed by a re-wiring: `inv11_rewire`,
+  `ci_rewire`): `ReachC`, `wakeC_rewire`, `wakeC_rewire_reachable`,
+  **`no_lost_wakeupC_rewire_reachable`**.
+STAGE RF (`S4R w ⊇ S4 w, S2R w`: THE WHOLE SCOPE — resources, batchers, batches, the shared group —
+  AND re-wiring in scripts; `S4R w = SC w ∧ (hasRes w → S11R w) ∧ (¬ NoBatch w → ScrB w ∧ SizesPos w)`):
+  both auxiliary invariants are carried for the world without its scripts, `C11W.Inv (es w [])` and
+  `C17W.CI (es w [])`; an operation `o` of a script is the script run of the world `es v [[o]]`, a
+  re-wiring is a frame step (`Proofs/C03YBatR.lean`: `GCI.step`): `wakeF_init`, `wakeF_step`,
+  `wakeF_applyOp`, `wakeF_rewire`, `ReachF`, `wakeF_reachable`, `s4r_reachable`,
+  **`no_lost_wakeup_rewire_all_reachable`** (subsumes the stages R, RA, RC; `…_partial`: what
+  remains excluded — several groups, as in stage C).
+Necessity (machine-checked): `rewire_duplicate_false` (third clause of `RewOK`: a lost wake-up),
+`rewire_uninitialised_false` (registration: a lost wake-up), `rewire_cycle_breaks_scope` (`EnvOK`),
+`rewire_source_breaks_scope` (first two clauses of `RewOK`), `group_input_upstream_false`.
+Non-vacuity: `exRew` (a script connects a waiting source to a free machine at t = 5, the part moves
+at t = 5), `exCut` (the only would-be acceptor is disconnected: the holder stays flagged, the state
+is quiescent), `exResRew` (resources and a scripted by-pass), `reachC_exWaiting` (a by-pass
+connected from outside in front of a processor that waits for resources), `exBatRew` (a blocked
+batcher gets a second, free sink), `exGrpRew` (a second machine is connected to the group input
+mid-run: both lines in front of the group are woken), `exPathRew` (a group path gets a second
+downstream neighbour: the machine inside the group is woken through the group output).
 
 DEFINITIONS.  `ready w d p` — `d` holds `p` (finished part of a handler / processor / batcher,
 supplied part of a source, head of a buffer) and `p` may leave now; `wouldAccept f w x p` — the pure
@@ -73,11 +127,15 @@ generalised invariant `G [] [] [] w` (scope `SC`, `C01.Inv`, `0 ≤ now`, `EvOK`
 `KidsValid`, `StkOK` — if there is a group output, every entry of a part's stack is a group path —,
 registration `WR`, `WakeA`), and — if a requirement is declared — the resource
 invariant `C11W.Inv w`, and — if batchers / batches exist — the batcher and conservation invariant
-`C17W.CI w` (no part is held twice, the batchers are settled).  `GoodA w = GoodB w ∧ NoBatch w`.
+`C17W.CI w` (no part is held twice, the batchers are settled), and `IOK w` (no script re-wires, or
+every device has been initialised).  `GoodA w = GoodB w ∧ NoBatch w`.  `GoodR` (stage R), `GoodE`
+(stage RA): see below.
 
 THEOREMS.  S1: `give_answer`, `wake_init`, `wake_exec`, `wake_step`, `wake_runLoop`,
 `wake_reachable`, `no_lost_wakeup`, `blocked_genuinely`, `wake_passPart`, `wake_notify`,
-`wake_acceptPart` (all as before, now corollaries of the generalised machinery).
+`wake_acceptPart` (all as before, now corollaries of the generalised machinery; `wake_passPart`,
+`wake_exec`, `wakeB_exec` — stated for the machinery's invariant `G`, which now admits re-wiring
+scripts — take the additional hypothesis `NR w` resp. `IOK w`).
 Stage A: `give_answerA`, `wakeA_init`, `wakeA_step`, `wakeA_runLoop`, `wakeA_reachable`,
 `wakeA_simulate`, `s2_step`, `blocked_genuinelyA`, `no_lost_wakeupA`, `no_lost_wakeupA_reachable`.
 Stage B: `give_answerB`, `wakeB_init`, `wakeB_exec`, `wakeB_step`, `wakeB_runLoop`,
@@ -88,14 +146,22 @@ Stage C (same invariant `GoodB`): `give_answerC`, `tryList_answerC`, `refused_ro
 `s4_runLoop`, `blocked_genuinelyC`, `no_lost_wakeupC`, `no_lost_wakeupC_reachable`.
 The machinery (generalised invariant `G E N A` with a set `E` of exempt devices, a set `N` of
 devices whose notification is pending and a set `A` of batchers that have just notified) is in
-`Proofs/C03W*.lean`, `Proofs/C03X*.lean`.
+`Proofs/C03W*.lean`, `Proofs/C03X*.lean`; re-wiring in `Proofs/C03Y*.lean` (`C03YTopo`: envelope,
+sub-wirings, `SC.rewired`; `C03YRewire`: `G.rewiring`, `G.connectG`, `G.rewireG`, `G.rewireD`;
+`C03YIni`: initialisation; `C03YSwr`, `C03YSwrW`: the static data without the wiring; `C03YAux`:
+C11W / C17W invariants under `rewire`; `C03YEs*`: blindness to the scripts; `C03YResR`: stage RA;
+`C03YBatR`: stage RF).
 Necessity counterexamples: `wake_exec_false_cancel`, `wake_exec_false_target` (the restrictions on
 scripts and maintenance targets cannot be dropped), `cancel_manager_false` (in stage A a script must
 not cancel the manager's events); `group_input_upstream_false` (a device wired directly in front of
 a group input is never woken); `empty_batch_full_buffer_quiescent` (finding F12, repaired).
 -/
 import SimProc.Proofs.C03XRes
+import SimProc.Proofs.C03YAux
+import SimProc.Proofs.C03YResR
+import SimProc.Proofs.C03YBatR
 import SimProc.Props.C02
+import SimProc.Props.C20W
 
 namespace SimProc
 namespace C03W
@@ -222,16 +288,17 @@ theorem stkOK_of_noBatch {w : World} (hb : NoBatch w) : StkOK w :=
 
 /-- `Good` is the generalised invariant in a world without resource requirements, batchers and
 batch-generating sources. -/
-theorem good_iff (w : World) : Good w ↔ G [] [] [] w ∧ hasRes w = false ∧ NoBatch w := by
+theorem good_iff (w : World) :
+    Good w ↔ G [] [] [] w ∧ hasRes w = false ∧ NoBatch w ∧ NR w := by
   constructor
   · intro h
-    have hpl : PartsLeaf w := ((S1_iff w).mp h.s1).2.2.2
+    have hpl : PartsLeaf w := ((S1_iff w).mp h.s1).2.2.2.1
     exact ⟨⟨h.s1.sc, fun _ => hpl, h.inv, h.now0, h.ev, h.valid, kidsValid_of_leaf hpl,
       stkOK_of_noBatch h.s1.noBatch, Or.inl h.s1.noRes, (fun _ hx => nomatch hx),
       (wake_iff h.s1.noRes h.s1.noBatch).mp h.wake⟩,
-      h.s1.noRes, h.s1.noBatch⟩
-  · rintro ⟨h, hn, hb⟩
-    exact ⟨(S1_iff w).mpr ⟨h.sc, hn, hb, h.pl hb⟩, h.inv, h.now0, h.ev, h.valid,
+      h.s1.noRes, h.s1.noBatch, h.s1.nr⟩
+  · rintro ⟨h, hn, hb, hr⟩
+    exact ⟨(S1_iff w).mpr ⟨h.sc, hn, hb, h.pl hb, hr⟩, h.inv, h.now0, h.ev, h.valid,
       (wake_iff hn hb).mpr h.wake⟩
 
 theorem invB_of_noBatch {w : World} (hb : NoBatch w) : InvB w := fun hn => absurd hb hn
@@ -241,7 +308,7 @@ theorem settled_of_noBatch {w : World} (hb : NoBatch w) : Settled w :=
 
 theorem Good.goodB {w : World} (h : Good w) : GoodB w :=
   ⟨((good_iff w).mp h).1, (fun hr => by rw [h.s1.noRes] at hr; cases hr),
-    fun hn => absurd h.s1.noBatch hn⟩
+    fun hn => absurd h.s1.noBatch hn, Or.inl h.s1.nr⟩
 
 /-- the invariant of stage A: that of stage B, without batchers and batch-generating sources -/
 structure GoodA (w : World) : Prop where
@@ -256,12 +323,12 @@ changes on the way (a refusing processor registers with the resource manager —
 change anybody's answer). -/
 theorem give_answerC (f : Nat) (w : World) (x p : Nat) (h : S4 w) (hp : p < w.parts.length) :
     (give f w x p).2 = wouldAccept f w x p :=
-  give_answer_eq f w x p h.1.kok (Or.inl hp)
+  give_answer_eq f w x p h.1.1.kok (Or.inl hp)
 
 /-- Without group devices the part need not exist. -/
 theorem give_answerB (f : Nat) (w : World) (x p : Nat) (h : S3 w) :
     (give f w x p).2 = wouldAccept f w x p :=
-  give_answer_eq f w x p h.1.1.kok (Or.inr h.2.noGrp)
+  give_answer_eq f w x p h.1.1.1.kok (Or.inr h.2.noGrp)
 
 theorem give_answerA (f : Nat) (w : World) (x p : Nat) (h : S2 w) :
     (give f w x p).2 = wouldAccept f w x p :=
@@ -276,13 +343,13 @@ theorem give_answer (f : Nat) (w : World) (x p : Nat) (h : S1 w) :
 theorem tryList_answerC (w : World) (x p : Nat) (h : S4 w) (hp : p < w.parts.length) :
     (tryList givePart w (w.sortedDown x) p).2 =
       (w.dev x).down.any (fun y => wouldAccept w.fuel w y p) := by
-  rw [tryList_givePart_answer w _ p h.1.kok (Or.inl hp)]
+  rw [tryList_givePart_answer w _ p h.1.1.kok (Or.inl hp)]
   exact any_perm (C08.sortedDown_perm w x) _
 
 theorem tryList_answerB (w : World) (x p : Nat) (h : S3 w) :
     (tryList givePart w (w.sortedDown x) p).2 =
       (w.dev x).down.any (fun y => wouldAccept w.fuel w y p) := by
-  rw [tryList_givePart_answer w _ p h.1.1.kok (Or.inr h.2.noGrp)]
+  rw [tryList_givePart_answer w _ p h.1.1.1.kok (Or.inr h.2.noGrp)]
   exact any_perm (C08.sortedDown_perm w x) _
 
 theorem tryList_answer' (w : World) (x p : Nat) (h : S1 w) :
@@ -295,12 +362,12 @@ processor that refused for want of resources is registered now. -/
 theorem refused_round_registersC {w w1 : World} (h : S4 w) {x p : Nat} (hp : p < w.parts.length)
     (ht : tryList givePart w (w.sortedDown x) p = (w1, false)) :
     ∀ y ∈ (w.dev x).down, wouldAcceptR w.fuel w1 y p = false :=
-  (tryGive_refused h.1 (Or.inl hp) ht).2
+  (tryGive_refused h.1.1 (Or.inl hp) ht).2
 
 theorem refused_round_registers {w w1 : World} (h : S3 w) {x p : Nat}
     (ht : tryList givePart w (w.sortedDown x) p = (w1, false)) :
     ∀ y ∈ (w.dev x).down, wouldAcceptR w.fuel w1 y p = false :=
-  (tryGive_refused h.1.1 (Or.inr h.2.noGrp) ht).2
+  (tryGive_refused h.1.1.1 (Or.inr h.2.noGrp) ht).2
 
 /-! ### 1. initialisation -/
 
@@ -343,7 +410,7 @@ theorem wake_init {w : World} (hs : S1 w) (hi : C01.Inv w.env) (h0 : 0 ≤ w.now
     (hf : C02.Fresh w) : Good w.simulateInit :=
   (good_iff _).mpr ⟨((good_iff w).mp (good_fresh hs hi h0 he hf)).1.simulateInitG,
     by rw [hasRes_of_ss (C02V.ss_simulateInit w)]; exact hs.noRes,
-    (noBatch_of_sw (sw_simulateInit w).sw_eq).mpr hs.noBatch⟩
+    (noBatch_of_sw (sw_simulateInit w).sw_eq).mpr hs.noBatch, hs.nr.of_sw (sw_simulateInit w)⟩
 
 /-- Fresh worlds of stages A and B: nobody holds anything (`C02.Fresh`), no device is flagged as
 waiting for resources, and — if a requirement is declared — the resource manager is fresh
@@ -356,14 +423,14 @@ stages B and C holds. -/
 theorem wakeC_init {w : World} (hs : S4 w) (hi : C01.Inv w.env) (h0 : 0 ≤ w.now) (he : EvOK w)
     (hf : FreshA w) : GoodB w.simulateInit := by
   have hg : G [] [] [] w :=
-    ⟨hs.1, fun _ => partsLeaf_fresh hf.1, hi, h0, he, heldValid_fresh hf.1,
+    ⟨hs.1.1, fun _ => partsLeaf_fresh hf.1, hi, h0, he, heldValid_fresh hf.1,
       kidsValid_of_leaf (partsLeaf_fresh hf.1), stkOK_of_noParts hf.1.1,
       wr_fresh hf.2.1 (fun hr => (hf.2.2 hr).2.2.1), (fun _ hx => nomatch hx), wakeG_fresh hf.1⟩
-  refine ⟨hg.simulateInitG, fun hr => ?_, fun hn => ?_⟩
+  refine ⟨hg.simulateInitG, fun hr => ?_, fun hn => ?_, Or.inl (hs.1.2.of_sw (sw_simulateInit w))⟩
   · rw [hasRes_of_ss (C02V.ss_simulateInit w)] at hr
     exact C11W.inv_simulateInit w (hs.2.1 hr) (hf.2.2 hr)
   · have hn0 : ¬ NoBatch w := fun hb => hn ((noBatch_of_sw (sw_simulateInit w).sw_eq).mpr hb)
-    exact C17W.ci_init w ⟨hf.1, static_of hs.1 (hs.2.2 hn0).1 he, (hs.2.2 hn0).2⟩
+    exact C17W.ci_init w ⟨hf.1, static_of hs.1.1 hs.1.2 (hs.2.2 hn0).1 he, (hs.2.2 hn0).2⟩
 
 /-- **1B. `wakeB_init`**. -/
 theorem wakeB_init {w : World} (hs : S3 w) (hi : C01.Inv w.env) (h0 : 0 ≤ w.now) (he : EvOK w)
@@ -381,16 +448,17 @@ attempt has just been popped), then after `passPart d` it holds for every device
 its part over, or has queued a new attempt (buffer head not yet due), or is flagged with no
 downstream device willing. -/
 theorem wake_passPart {w : World} {d : Nat} (h : G [d] [] [] w) (hn : hasRes w = false)
-    (hb : NoBatch w) : Good (w.passPart d) :=
+    (hb : NoBatch w) (hr : NR w) : Good (w.passPart d) :=
   (good_iff _).mpr ⟨h.passPartG (invB_of_noBatch hb) (settled_of_noBatch hb),
     by rw [hasRes_of_sd (C02V.sd_passPart w d)]; exact hn,
-    (noBatch_of_swv (C02V.swv_passPart w d)).mpr hb⟩
+    (noBatch_of_swv (C02V.swv_passPart w d)).mpr hb, hr.of_scripts (C02V.scr_passPart w d)⟩
 
 /-- **(c)** a notification never destroys the invariant … -/
 theorem wake_notify {w : World} (h : Good w) (x : Nat) : Good (w.notify x) :=
   (good_iff _).mpr ⟨((good_iff w).mp h).1.notify x (fun _ hy => Or.inr hy),
     by rw [hasRes_of_sd (C02V.sd_notify w x)]; exact h.s1.noRes,
-    (noBatch_of_swv (C02V.swv_notify w x)).mpr h.s1.noBatch⟩
+    (noBatch_of_swv (C02V.swv_notify w x)).mpr h.s1.noBatch,
+    h.s1.nr.of_scripts (C02V.scr_notify w x)⟩
 
 /-- **(c)** … nor does a downstream device accepting a part. -/
 theorem wake_acceptPart {w : World} (h : Good w) (x p : Nat) (hp : p < w.parts.length) :
@@ -398,30 +466,32 @@ theorem wake_acceptPart {w : World} (h : Good w) (x p : Nat) (hp : p < w.parts.l
   (good_iff _).mpr ⟨((good_iff w).mp h).1.acceptPart x p hp
       (fun hk => absurd hk (noBatch_dev h.s1.noBatch x).1),
     by rw [hasRes_of_sd (C02V.sd_acceptPart w x p)]; exact h.s1.noRes,
-    (noBatch_of_swv (C02V.swv_acceptPart w x p)).mpr h.s1.noBatch⟩
+    (noBatch_of_swv (C02V.swv_acceptPart w x p)).mpr h.s1.noBatch,
+    h.s1.nr.of_scripts (C02V.scr_acceptPart w x p)⟩
 
 /-- **2. `wake_exec`** — one lemma for all twelve action kinds: `terminate`, `script k`,
 `finishCycle d`, `passPart d` (with `d` exempt beforehand: its attempt has just been popped),
 `fail d` (of a processor), `releaseIfIdle d`, `rmCheck`, `startWork`, `finishWork`, `schedUpdate`,
 `periodicSense`, `unknown`. -/
 theorem wake_exec {w : World} (a : Action) (h : G (exemptA a) [] [] w) (hn : hasRes w = false)
-    (hb : NoBatch w) (ha : ∀ d, a = .fail d → (w.dev d).kind = .processor) : Good (w.exec a) :=
-  (good_iff _).mpr ⟨h.execG a ha (invB_of_noBatch hb) (settled_of_noBatch hb),
-    by rw [hasRes_of_ss (nr_exec w a h.sc.nr)]; exact hn,
-    (noBatch_of_sw (sw_exec w a h.sc.nr).sw_eq).mpr hb⟩
+    (hb : NoBatch w) (hr : NR w) (ha : ∀ d, a = .fail d → (w.dev d).kind = .processor) :
+    Good (w.exec a) :=
+  (good_iff _).mpr ⟨h.execG a ha (invB_of_noBatch hb) (settled_of_noBatch hb) (Or.inl hr),
+    by rw [hasRes_of_ss (nr_exec w a hr)]; exact hn,
+    (noBatch_of_sw (sw_exec w a hr).sw_eq).mpr hb, hr.of_sw (sw_exec w a hr)⟩
 
 /-- The same for stages A and B (the wake-up part of the invariant; the resource part is
 `C11W.inv_exec`, the batcher part `C17W`): if batchers or batches exist, the conservation
 invariant of C02 must hold and the batchers must be settled. -/
 theorem wakeB_exec {w : World} (a : Action) (h : G (exemptA a) [] [] w)
-    (ha : ∀ d, a = .fail d → (w.dev d).kind = .processor) (hI : InvB w) (hset : Settled w) :
-    G [] [] [] (w.exec a) :=
-  h.execG a ha hI hset
+    (ha : ∀ d, a = .fail d → (w.dev d).kind = .processor) (hI : InvB w) (hset : Settled w)
+    (hio : IOK w) : G [] [] [] (w.exec a) :=
+  h.execG a ha hI hset hio
 
 /-- For every action other than `passPart` the hypothesis of `wake_exec` is `Good w`. -/
 theorem wake_exec' {w : World} (a : Action) (h : Good w) (hp : ∀ d, a ≠ .passPart d)
     (ha : ∀ d, a = .fail d → (w.dev d).kind = .processor) : Good (w.exec a) := by
-  refine wake_exec a ?_ h.s1.noRes h.s1.noBatch ha
+  refine wake_exec a ?_ h.s1.noRes h.s1.noBatch h.s1.nr ha
   have : exemptA a = [] := by
     cases a <;> first | rfl | exact absurd rfl (hp _)
   rw [this]; exact ((good_iff w).mp h).1
@@ -440,23 +510,23 @@ theorem wakeC_step {w w' : World} {e : Event} (h : GoodB w) (hst : w.step = some
 /-- The scope of stage C is preserved by every step. -/
 theorem s4_step {w w' : World} {e : Event} (hs : S4 w) (h : GoodB w) (hst : w.step = some (e, w')) :
     S4 w' :=
-  hs.of_sw (h.step hst).g.sc (sw_step w w' e h.g.sc.nr hst) (nr_step w w' e h.g.sc.nr hst)
+  hs.of_sw (h.step hst).g.sc (sw_step w w' e hs.1.2 hst) (nr_step w w' e hs.1.2 hst)
 
 theorem s4_runLoop (n : Nat) {w : World} (hs : S4 w) (h : GoodB w) : S4 (runLoop n w) :=
-  hs.of_sw (h.runLoop n).g.sc (sw_runLoop n w h.g.sc.nr) (nr_runLoop n w h.g.sc.nr)
+  hs.of_sw (h.runLoop n).g.sc (sw_runLoop n w hs.1.2) (nr_runLoop n w hs.1.2)
 
 /-- The scope of stage B is preserved by every step. -/
 theorem s3_step {w w' : World} {e : Event} (hs : S3 w) (h : GoodB w) (hst : w.step = some (e, w')) :
     S3 w' :=
-  hs.of_sw (h.step hst).g.sc (sw_step w w' e h.g.sc.nr hst) (nr_step w w' e h.g.sc.nr hst)
+  hs.of_sw (h.step hst).g.sc (sw_step w w' e hs.1.1.2 hst) (nr_step w w' e hs.1.1.2 hst)
 
 theorem s3_runLoop (n : Nat) {w : World} (hs : S3 w) (h : GoodB w) : S3 (runLoop n w) :=
-  hs.of_sw (h.runLoop n).g.sc (sw_runLoop n w h.g.sc.nr) (nr_runLoop n w h.g.sc.nr)
+  hs.of_sw (h.runLoop n).g.sc (sw_runLoop n w hs.1.1.2) (nr_runLoop n w hs.1.1.2)
 
 /-- **2A. `wakeA_step`**. -/
 theorem wakeA_step {w w' : World} {e : Event} (h : GoodA w) (hst : w.step = some (e, w')) :
     GoodA w' :=
-  ⟨h.b.step hst, (noBatch_of_sw (sw_step w w' e h.b.g.sc.nr hst).sw_eq).mpr h.nb⟩
+  ⟨h.b.step hst, (noBatch_of_swr' (swrw_step w w' e h.b.g.sc.nc hst)).mpr h.nb⟩
 
 /-- The scope of stage A is preserved by every step. -/
 theorem s2_step {w w' : World} {e : Event} (hs : S2 w) (h : GoodA w) (hst : w.step = some (e, w')) :
@@ -467,8 +537,9 @@ theorem s2_step {w w' : World} {e : Event} (hs : S2 w) (h : GoodA w) (hst : w.st
 invariant, `EvOK`, `HeldValid`. -/
 theorem wake_step {w w' : World} {e : Event} (h : Good w) (hst : w.step = some (e, w')) : Good w' :=
   (good_iff _).mpr ⟨(h.goodB.step hst).g,
-    by rw [hasRes_of_ss (nr_step w w' e h.s1.sc.nr hst)]; exact h.s1.noRes,
-    (noBatch_of_sw (sw_step w w' e h.s1.sc.nr hst).sw_eq).mpr h.s1.noBatch⟩
+    by rw [hasRes_of_ss (nr_step w w' e h.s1.nr hst)]; exact h.s1.noRes,
+    (noBatch_of_sw (sw_step w w' e h.s1.nr hst).sw_eq).mpr h.s1.noBatch,
+    h.s1.nr.of_sw (sw_step w w' e h.s1.nr hst)⟩
 
 /-- `S1` is preserved by every step. -/
 theorem s1_step {w w' : World} {e : Event} (h : Good w) (hst : w.step = some (e, w')) : S1 w' :=
@@ -479,15 +550,16 @@ theorem s1_step {w w' : World} {e : Event} (h : Good w) (hst : w.step = some (e,
 /-- **3. `wake_runLoop`**. -/
 theorem wake_runLoop (n : Nat) {w : World} (h : Good w) : Good (runLoop n w) :=
   (good_iff _).mpr ⟨(h.goodB.runLoop n).g,
-    by rw [hasRes_of_ss (nr_runLoop n w h.s1.sc.nr)]; exact h.s1.noRes,
-    (noBatch_of_sw (sw_runLoop n w h.s1.sc.nr).sw_eq).mpr h.s1.noBatch⟩
+    by rw [hasRes_of_ss (nr_runLoop n w h.s1.nr)]; exact h.s1.noRes,
+    (noBatch_of_sw (sw_runLoop n w h.s1.nr).sw_eq).mpr h.s1.noBatch,
+    h.s1.nr.of_sw (sw_runLoop n w h.s1.nr)⟩
 
 theorem wakeB_runLoop (n : Nat) {w : World} (h : GoodB w) : GoodB (runLoop n w) := h.runLoop n
 
 theorem wakeC_runLoop (n : Nat) {w : World} (h : GoodB w) : GoodB (runLoop n w) := h.runLoop n
 
 theorem wakeA_runLoop (n : Nat) {w : World} (h : GoodA w) : GoodA (runLoop n w) :=
-  ⟨h.b.runLoop n, (noBatch_of_sw (sw_runLoop n w h.b.g.sc.nr).sw_eq).mpr h.nb⟩
+  ⟨h.b.runLoop n, (noBatch_of_swr' (swrw_runLoop n w h.b.g.sc.nc)).mpr h.nb⟩
 
 /-- In every state reachable from an initialised fresh S1 world the invariant holds. -/
 theorem wake_reachable (n : Nat) {w : World} (hs : S1 w) (hi : C01.Inv w.env) (h0 : 0 ≤ w.now)
@@ -515,7 +587,7 @@ theorem wakeA_reachable (n : Nat) {w : World} (hs : S2 w) (hi : C01.Inv w.env) (
 theorem wake_runBegin {w : World} (h : Good w) (d : Int) : Good (w.runBegin d).1 :=
   (good_iff _).mpr ⟨((good_iff w).mp h).1.runBeginG d,
     by rw [hasRes_of_ss (ss_runBegin w d)]; exact h.s1.noRes,
-    (noBatch_of_sw (sw_runBegin w d).sw_eq).mpr h.s1.noBatch⟩
+    (noBatch_of_sw (sw_runBegin w d).sw_eq).mpr h.s1.noBatch, h.s1.nr.of_sw (sw_runBegin w d)⟩
 
 theorem wakeB_runBegin {w : World} (h : GoodB w) (d : Int) : GoodB (w.runBegin d).1 := h.runBegin d
 
@@ -582,32 +654,50 @@ theorem registered_refuses {w : World} (h : GoodB w) (y : Nat) (hk : (w.dev y).k
     procReal w y = false ∨ C11W.QueuedL w .rmCheck w.now pOtherHigh (-1) :=
   h.registered y hk hm
 
+/-- **The three clauses**, from the wake-up invariant `G` and the clause `C11W.Pend` of the resource
+invariant ("a feasible waiting request has a live availability check queued for now"). -/
+theorem wake_w3_of {w : World} (hg : G [] [] [] w) (hp : hasRes w = true → C11W.Pend w) (d p : Nat)
+    (hd : holdsD (w.dev d) = some p) :
+    Att w d ∨ BlockedW w d p ∨
+      ((w.dev d).waitingDS = true ∧ C11W.QueuedL w .rmCheck w.now pOtherHigh (-1)) := by
+  rcases hg.wake d p hd (by simp) with ha | hb
+  · exact Or.inl ha
+  · by_cases hq : C11W.QueuedL w .rmCheck w.now pOtherHigh (-1)
+    · exact Or.inr (Or.inr ⟨hb.1, hq⟩)
+    · exact Or.inr (Or.inl ⟨hb.1, fun y hy => real_of_R_of hg hp hq _ y p (hb.2 y hy)⟩)
+
 /-- **The three clauses.**  Every holder `d` of a part `p` has (W1) a live hand-over attempt queued,
 or (W2) is flagged and NO downstream neighbour would accept `p` (`wouldAccept`: what `give` would
 really answer, resources included), or (W3) is flagged and a live availability check of the
 resource manager is queued for the current instant. -/
 theorem wake_w3 {w : World} (h : GoodB w) (d p : Nat) (hd : holdsD (w.dev d) = some p) :
     Att w d ∨ BlockedW w d p ∨
-      ((w.dev d).waitingDS = true ∧ C11W.QueuedL w .rmCheck w.now pOtherHigh (-1)) := by
-  rcases h.g.wake d p hd (by simp) with ha | hb
-  · exact Or.inl ha
-  · by_cases hq : C11W.QueuedL w .rmCheck w.now pOtherHigh (-1)
-    · exact Or.inr (Or.inr ⟨hb.1, hq⟩)
-    · exact Or.inr (Or.inl ⟨hb.1, fun y hy => h.real_of_R hq _ y p (hb.2 y hy)⟩)
+      ((w.dev d).waitingDS = true ∧ C11W.QueuedL w .rmCheck w.now pOtherHigh (-1)) :=
+  wake_w3_of h.g (fun hr => (h.r hr).pend) d p hd
 
-/-- **4B. `blocked_genuinelyB`**: when time is about to advance, every ready part is flagged and no
-downstream neighbour would accept it — the answer `give` would return, resources and batch sizes
-included. -/
-theorem blocked_genuinelyB {w : World} (h : GoodB w) (hc : ClockAdvances w) (d p : Nat)
-    (hr : ready w d p) : BlockedW w d p := by
-  have hadv := no_event_now h.g.inv hc
-  rcases wake_w3 h d p hr.1 with ⟨e, he, _, _, _, ht⟩ | hb | ⟨_, hq⟩
+theorem blocked_genuinely_of {w : World} (hg : G [] [] [] w) (hp : hasRes w = true → C11W.Pend w)
+    (hc : ClockAdvances w) (d p : Nat) (hr : ready w d p) : BlockedW w d p := by
+  have hadv := no_event_now hg.inv hc
+  rcases wake_w3_of hg hp d p hr.1 with ⟨e, he, _, _, _, ht⟩ | hb | ⟨_, hq⟩
   · exfalso
     have := hadv e he
     rw [dueD_of_expired hr.2] at ht
     omega
   · exact hb
   · exact absurd hq (no_check_of_advance hadv)
+
+theorem quiescent_of {w : World} (hg : G [] [] [] w) (hp : hasRes w = true → C11W.Pend w)
+    (hc : ClockAdvances w) : Quiescent w := by
+  rw [quiescent_iff]
+  intro d p x hr hx
+  exact (blocked_genuinely_of hg hp hc d p hr).2 x hx
+
+/-- **4B. `blocked_genuinelyB`**: when time is about to advance, every ready part is flagged and no
+downstream neighbour would accept it — the answer `give` would return, resources and batch sizes
+included. -/
+theorem blocked_genuinelyB {w : World} (h : GoodB w) (hc : ClockAdvances w) (d p : Nat)
+    (hr : ready w d p) : BlockedW w d p :=
+  blocked_genuinely_of h.g (fun hr => (h.r hr).pend) hc d p hr
 
 theorem blocked_genuinelyA {w : World} (h : GoodA w) (hc : ClockAdvances w) (d p : Nat)
     (hr : ready w d p) : BlockedW w d p := blocked_genuinelyB h.b hc d p hr
@@ -1081,6 +1171,1116 @@ theorem group_input_upstream_false :
     ¬ Quiescent (runLoop 6 (cexGin.simulateInit.runBegin 100).1) := by
   refine ⟨by decide, ⟨⟨rfl, rfl, rfl, rfl, by decide⟩, by decide, fun h => by cases h⟩,
     by decide, by decide, by decide, by decide⟩
+
+/-! ## STAGE R: mid-run re-wiring ("connection added")
+
+`S1R w` — the scope of stage S1, but scripts MAY contain `rewire x ups` (`OpSC`, `RewOK`, `EnvOK`).
+`GoodR w` — what the induction carries.  `ReachR w0 w` — the reachable states: initialisation,
+events, whole runs, beginnings of runs, and operations issued from outside between events that are
+taken from the vocabulary of the scripts. -/
+
+/-- **The scope of stage S1 with mid-run re-wiring**: the machinery's scope `SC` (which admits
+`rewire x ups` in scripts under the static conditions `RewOK`, `EnvOK`) without resource
+requirements, batchers, batches and groups. -/
+def S1R (w : World) : Prop := SC w ∧ hasRes w = false ∧ NoBatch w ∧ PartsLeaf w
+
+instance (w : World) : Decidable (S1R w) := by unfold S1R; infer_instance
+
+/-- S1 is S1R without re-wiring scripts. -/
+theorem s1_iff_s1r (w : World) : S1 w ↔ S1R w ∧ NR w := by
+  rw [S1_iff]
+  constructor
+  · rintro ⟨a, b, c, d, e⟩; exact ⟨⟨a, b, c, d⟩, e⟩
+  · rintro ⟨⟨a, b, c, d⟩, e⟩; exact ⟨a, b, c, d, e⟩
+
+theorem S1.s1r {w : World} (h : S1 w) : S1R w := ((s1_iff_s1r w).mp h).1
+
+/-- `RewOK` in a world without group devices. -/
+theorem rewOK_iff_of_s1r {w : World} (h : S1R w) (x : Nat) (ups : List Nat) :
+    RewOK w x ups ↔ (x < w.devs.length ∧ ((w.dev x).kind = .source → ups = []) ∧
+      ∀ d ∈ w.devs, d.down.count x ≤ 1) := by
+  have hg := noGrp_of_noBatch h.2.2.1
+  unfold RewOK
+  constructor
+  · rintro ⟨h1, h2, h3⟩; exact ⟨h1, fun hk => h2 (Or.inl hk), h3⟩
+  · rintro ⟨h1, h2, h3⟩
+    exact ⟨h1, fun hk => hk.elim h2 (fun hk => absurd hk (hg x).2.1), h3⟩
+
+/-- Everything the closed-world induction carries (stage R). -/
+structure GoodR (w : World) : Prop where
+  s : S1R w
+  inv : C01.Inv w.env
+  now0 : 0 ≤ w.now
+  ev : EvOK w
+  valid : HeldValid w
+  wake : Wake w
+  /-- no script re-wires, or every device is registered and has been initialised -/
+  ini : IOK w
+
+theorem goodR_iff (w : World) :
+    GoodR w ↔ G [] [] [] w ∧ hasRes w = false ∧ NoBatch w ∧ IOK w := by
+  constructor
+  · intro h
+    obtain ⟨hsc, hn, hb, hpl⟩ := h.s
+    exact ⟨⟨hsc, fun _ => hpl, h.inv, h.now0, h.ev, h.valid, kidsValid_of_leaf hpl,
+      stkOK_of_noBatch hb, Or.inl hn, (fun _ hx => nomatch hx), (wake_iff hn hb).mp h.wake⟩,
+      hn, hb, h.ini⟩
+  · rintro ⟨h, hn, hb, hi⟩
+    exact ⟨⟨h.sc, hn, hb, h.pl hb⟩, h.inv, h.now0, h.ev, h.valid, (wake_iff hn hb).mpr h.wake, hi⟩
+
+theorem GoodR.goodB {w : World} (h : GoodR w) : GoodB w :=
+  ⟨((goodR_iff w).mp h).1, (fun hr => by rw [h.s.2.1] at hr; cases hr),
+    fun hn => absurd h.s.2.2.1 hn, h.ini⟩
+
+theorem goodR_of_goodB {w : World} (h : GoodB w) (hn : hasRes w = false) (hb : NoBatch w) :
+    GoodR w := (goodR_iff w).mpr ⟨h.g, hn, hb, h.i⟩
+
+/-- `Good` (stage S1) is `GoodR` in a world whose scripts do not re-wire. -/
+theorem Good.goodR {w : World} (h : Good w) : GoodR w :=
+  goodR_of_goodB h.goodB h.s1.noRes h.s1.noBatch
+
+/-- **R1. `wakeR_init`**: after `simulateInit` of a fresh world of the scope that satisfies the
+registration invariant (`C20W.Reg`: every device is registered, asset id = registration index + 1,
+nothing initialised yet — what the constructors of the Python library guarantee) the invariant
+holds, and every device has been initialised. -/
+theorem wakeR_init {w : World} (hs : S1R w) (hi : C01.Inv w.env) (h0 : 0 ≤ w.now) (he : EvOK w)
+    (hf : C02.Fresh w) (hreg : C20W.Reg w) : GoodR w.simulateInit := by
+  obtain ⟨hsc, hn, hb, hpl⟩ := hs
+  have hg : G [] [] [] w :=
+    ⟨hsc, fun _ => hpl, hi, h0, he, heldValid_fresh hf, kidsValid_of_leaf hpl, stkOK_of_noBatch hb,
+      Or.inl hn, (fun _ hx => nomatch hx), wakeG_fresh hf⟩
+  exact (goodR_iff _).mpr ⟨hg.simulateInitG,
+    by rw [hasRes_of_ss (C02V.ss_simulateInit w)]; exact hn,
+    (noBatch_of_sw (sw_simulateInit w).sw_eq).mpr hb, Or.inr (ini_simulateInit hreg)⟩
+
+/-- **R2. `wakeR_step`**: `Environment.step` preserves the invariant — including the scope `S1R`
+(whatever the scripts re-wire), the queue invariant, `EvOK`, `HeldValid` and `Wake`. -/
+theorem wakeR_step {w w' : World} {e : Event} (h : GoodR w) (hst : w.step = some (e, w')) :
+    GoodR w' := by
+  have r := swrw_step w w' e h.goodB.g.sc.nc hst
+  exact goodR_of_goodB (h.goodB.step hst) (by rw [hasRes_of_swr' r]; exact h.s.2.1)
+    ((noBatch_of_swr' r).mpr h.s.2.2.1)
+
+/-- The scope of stage R is preserved by every step (the re-wired world is in the scope again). -/
+theorem s1r_step {w w' : World} {e : Event} (h : GoodR w) (hst : w.step = some (e, w')) : S1R w' :=
+  (wakeR_step h hst).s
+
+theorem wakeR_runLoop (n : Nat) {w : World} (h : GoodR w) : GoodR (runLoop n w) := by
+  have r := swrw_runLoop n w h.goodB.g.sc.nc
+  exact goodR_of_goodB (h.goodB.runLoop n) (by rw [hasRes_of_swr' r]; exact h.s.2.1)
+    ((noBatch_of_swr' r).mpr h.s.2.2.1)
+
+theorem wakeR_runBegin {w : World} (h : GoodR w) (d : Int) : GoodR (w.runBegin d).1 :=
+  goodR_of_goodB (h.goodB.runBegin d) (by rw [hasRes_of_ss (ss_runBegin w d)]; exact h.s.2.1)
+    ((noBatch_of_sw (sw_runBegin w d).sw_eq).mpr h.s.2.2.1)
+
+/-- **R2'. An operation issued from outside** between two events preserves the invariant, if it is
+taken from the vocabulary of the scripts (every operation a script of the world contains is
+admissible whenever it is issued — the conditions of the scope do not depend on the state). -/
+theorem wakeR_applyOp {w : World} (h : GoodR w) (o : Op) (ho : ∃ l ∈ w.scripts, o ∈ l) :
+    GoodR (w.applyOp o).1 := by
+  obtain ⟨l, hl, hol⟩ := ho
+  have hg := ((goodR_iff w).mp h).1
+  have hop := hg.sc.scriptOp hl hol
+  have hnc := opSC_not_create hop
+  have r : C02V.swr (w.applyOp o).1 = C02V.swr w := C02V.swr_applyOp w o hnc
+  refine (goodR_iff _).mpr ⟨hg.applyOpG o hop h.ini ⟨l, hl, hol⟩,
+    by rw [hasRes_of_swr r]; exact h.s.2.1, (noBatch_of_swr r).mpr h.s.2.2.1, ?_⟩
+  have := h.ini.step (istep_applyOp w o hnc)
+  exact this.step ⟨rfl, C20W.Pv.of_same rfl⟩
+
+/-- **A re-wiring issued from outside** (between two events), whether or not a script contains it:
+the invariant is kept if the re-wiring is admissible (`RewOK`) and the re-wired world is in the
+scope `SC` again — both decidable on the current world — and every device has been initialised. -/
+theorem wakeR_rewire {w : World} (h : GoodR w) (hi : Ini w) (x : Nat) (ups : List Nat)
+    (hok : RewOK w x ups) (hfin : SC (w.rewire x ups)) :
+    GoodR (w.rewire x ups) ∧ Ini (w.rewire x ups) := by
+  have hg := ((goodR_iff w).mp h).1.rewireD x ups hok hfin (fun z hz => hi.inited hz)
+  have r : C02V.swr (w.rewire x ups) = C02V.swr w := C02V.swr_rewire w x ups
+  have hi' : Ini (w.rewire x ups) :=
+    hi.step ⟨C02V.scr_rewire w x ups, C20W.Pv_applyOp w (.rewire x ups) rfl⟩
+  exact ⟨(goodR_iff _).mpr ⟨hg, by rw [hasRes_of_swr r]; exact h.s.2.1,
+    (noBatch_of_swr r).mpr h.s.2.2.1, Or.inr hi'⟩, hi'⟩
+
+/-- **Reachable states** (stage R): `System.simulate`'s initialisation of the fresh world, then any
+number of events (`Environment.step`, or whole runs of the event loop `runLoop` with any fuel),
+beginnings of `Environment.run(d)`, operations issued from outside between events that occur in
+some script of the world, and ANY re-wiring issued from outside that is admissible and leaves the
+world in the scope (`RewOK`, `SC` of the re-wired world: decidable on the current world). -/
+inductive ReachR (w0 : World) : World → Prop
+  | init : ReachR w0 w0.simulateInit
+  | step {w w' : World} {e : Event} : ReachR w0 w → w.step = some (e, w') → ReachR w0 w'
+  | loop {w : World} (n : Nat) : ReachR w0 w → ReachR w0 (runLoop n w)
+  | run {w : World} (d : Int) : ReachR w0 w → ReachR w0 (w.runBegin d).1
+  | op {w : World} (o : Op) : ReachR w0 w → (∃ l ∈ w.scripts, o ∈ l) → ReachR w0 (w.applyOp o).1
+  | rew {w : World} (x : Nat) (ups : List Nat) : ReachR w0 w → RewOK w x ups →
+      SC (w.rewire x ups) → ReachR w0 (w.applyOp (.rewire x ups)).1
+
+/-- the invariant and "every device has been initialised" hold in every reachable state -/
+theorem wakeR_reachable' {w0 w : World} (hs : S1R w0) (hi : C01.Inv w0.env) (h0 : 0 ≤ w0.now)
+    (he : EvOK w0) (hf : C02.Fresh w0) (hreg : C20W.Reg w0) (hr : ReachR w0 w) :
+    GoodR w ∧ Ini w := by
+  induction hr with
+  | init => exact ⟨wakeR_init hs hi h0 he hf hreg, ini_simulateInit hreg⟩
+  | step _ hst ih => exact ⟨wakeR_step ih.1 hst, ih.2.step (istep_step hst)⟩
+  | loop n _ ih => exact ⟨wakeR_runLoop n ih.1, ih.2.step (istep_runLoop n _)⟩
+  | run d _ ih => exact ⟨wakeR_runBegin ih.1 d, ih.2.step (istep_runBegin _ d)⟩
+  | @op w o _ ho ih =>
+    obtain ⟨l, hl, hol⟩ := ho
+    have hnc := opSC_not_create (((goodR_iff w).mp ih.1).1.sc.scriptOp hl hol)
+    refine ⟨wakeR_applyOp ih.1 o ⟨l, hl, hol⟩, ?_⟩
+    exact (ih.2.step (istep_applyOp w o hnc)).step ⟨rfl, C20W.Pv.of_same rfl⟩
+  | rew x ups _ hok hfin ih => exact wakeR_rewire ih.1 ih.2 x ups hok hfin
+
+/-- **R3. `wakeR_reachable`**: the invariant holds in every reachable state. -/
+theorem wakeR_reachable {w0 w : World} (hs : S1R w0) (hi : C01.Inv w0.env) (h0 : 0 ≤ w0.now)
+    (he : EvOK w0) (hf : C02.Fresh w0) (hreg : C20W.Reg w0) (hr : ReachR w0 w) : GoodR w :=
+  (wakeR_reachable' hs hi h0 he hf hreg hr).1
+
+/-- the static class is preserved along every reachable state -/
+theorem s1r_reachable {w0 w : World} (hs : S1R w0) (hi : C01.Inv w0.env) (h0 : 0 ≤ w0.now)
+    (he : EvOK w0) (hf : C02.Fresh w0) (hreg : C20W.Reg w0) (hr : ReachR w0 w) : S1R w :=
+  (wakeR_reachable hs hi h0 he hf hreg hr).s
+
+theorem wakeR_simulate (n : Nat) (d : Int) {w : World} (hs : S1R w) (hi : C01.Inv w.env)
+    (h0 : 0 ≤ w.now) (he : EvOK w) (hf : C02.Fresh w) (hreg : C20W.Reg w) :
+    GoodR (runLoop n (w.simulateInit.runBegin d).1) :=
+  wakeR_reachable hs hi h0 he hf hreg (.loop n (.run d .init))
+
+/-- **R4. `blocked_genuinely_rewire`**: when time is about to advance, every ready part is flagged
+and no downstream neighbour — in the wiring of that moment — would accept it. -/
+theorem blocked_genuinely_rewire {w : World} (h : GoodR w) (hc : ClockAdvances w) (d p : Nat)
+    (hr : ready w d p) : BlockedW w d p :=
+  blocked_genuinelyB h.goodB hc d p hr
+
+theorem no_lost_wakeup_rewire {w : World} (h : GoodR w) (hc : ClockAdvances w) : Quiescent w :=
+  no_lost_wakeupB h.goodB hc
+
+/-- **The closed-world statement with mid-run re-wiring**: in every state reachable (by events,
+runs, and outside operations from the scripts' vocabulary) from an initialised fresh world of the
+scope `S1R` — whose scripts may re-wire the line — whenever the clock is about to advance no ready
+part could be handed over. -/
+theorem no_lost_wakeup_rewire_reachable {w0 w : World} (hs : S1R w0) (hi : C01.Inv w0.env)
+    (h0 : 0 ≤ w0.now) (he : EvOK w0) (hf : C02.Fresh w0) (hreg : C20W.Reg w0) (hr : ReachR w0 w)
+    (hc : ClockAdvances w) : Quiescent w :=
+  no_lost_wakeup_rewire (wakeR_reachable hs hi h0 he hf hreg hr) hc
+
+/-- the same in the shape of `no_lost_wakeup_reachable` -/
+theorem no_lost_wakeup_rewire_runLoop (n : Nat) {w : World} (hs : S1R w) (hi : C01.Inv w.env)
+    (h0 : 0 ≤ w.now) (he : EvOK w) (hf : C02.Fresh w) (hreg : C20W.Reg w)
+    (hc : ClockAdvances (runLoop n w.simulateInit)) : Quiescent (runLoop n w.simulateInit) :=
+  no_lost_wakeup_rewire_reachable hs hi h0 he hf hreg (.loop n .init) hc
+
+/-- **"Connection added" — the one-call statement inside the closed world.**  In a state of the
+invariant, after `rewire x ups` (issued by a script or from outside) every holder of a part — in
+particular every new upstream neighbour `u ∈ ups` — has a live hand-over attempt queued for the due
+time of its part, or is flagged and genuinely blocked IN THE NEW WIRING: if the newly connected `x`
+would accept the part of `u`, the attempt of `u` is queued at that same instant. -/
+theorem connection_added {w : World} (h : GoodR w) (x : Nat) (ups : List Nat)
+    (ho : ∃ l ∈ w.scripts, Op.rewire x ups ∈ l) (u p : Nat)
+    (hu : ready (w.rewire x ups) u p) (hx : x ∈ ((w.rewire x ups).dev u).down)
+    (hacc : wouldAccept (w.rewire x ups).fuel (w.rewire x ups) x p = true) :
+    ∃ e ∈ (w.rewire x ups).env.events, e.act = (Action.passPart u).toNat ∧
+      e.asset = ((w.rewire x ups).dev u).aid ∧ e.cancelled = false ∧ e.time = (w.rewire x ups).now := by
+  have hg : GoodR (w.applyOp (.rewire x ups)).1 := wakeR_applyOp h _ ho
+  have hg' : GoodR (w.rewire x ups) := hg
+  rcases (wake_spec hg'.s.2.1 hg'.s.2.2.1).mp hg'.wake u p hu.1 with ha | hb
+  · exact att_ready_now hg'.inv hu ha
+  · rw [hb.2 x hx] at hacc; cases hacc
+
+/-- **"Connection removed".**  After `rewire x ups` a holder that has lost its only would-be
+acceptor is still covered by the invariant: flagged with no downstream neighbour willing, or with
+an attempt queued (which will find nobody and flag it). -/
+theorem connection_removed {w : World} (h : GoodR w) (x : Nat) (ups : List Nat)
+    (ho : ∃ l ∈ w.scripts, Op.rewire x ups ∈ l) : Wake (w.rewire x ups) :=
+  (show GoodR (w.rewire x ups) from wakeR_applyOp h _ ho).wake
+
+/-! ### non-vacuity, stage R -/
+
+/-- one scripted event: script `k` runs at time `t` -/
+def envAt (t : Int) (k : Nat) : Env :=
+  (({ terminated := false } : Env).applyAll Arith.exact [.sched t 0 (Action.script k).toNat 8 0]).1
+
+/-- the only event queued initially is the script's: no failure is pending -/
+theorem evOK_envAt5 (w : World) (h : w.env = envAt 5 0) : EvOK w := by
+  intro n hn d hd
+  have : n = 1 := by
+    rw [h] at hn
+    simpa [C02V.acts, envAt, Env.applyAll, Env.apply, Env.schedule, insort, Env.newEvent,
+      Action.toNat] using hn
+  subst this
+  simp [Action.ofNat] at hd
+
+theorem evOK_envAt3 (w : World) (h : w.env = envAt 3 0) : EvOK w := by
+  intro n hn d hd
+  have : n = 1 := by
+    rw [h] at hn
+    simpa [C02V.acts, envAt, Env.applyAll, Env.apply, Env.schedule, insort, Env.newEvent,
+      Action.toNat] using hn
+  subst this
+  simp [Action.ofNat] at hd
+
+/-- source 0 (cycle 1, 5 parts) is NOT connected; machine 1 (cycle 3) → sink 2; at t = 5 script 0
+connects the source to the machine: `rewire 1 [0]` -/
+def exRew : World :=
+  { env := envAt 5 0
+    scripts := [[.rewire 1 [0]]]
+    devs := [{ kind := .source, aid := 1, cycle := 1, maxParts := some 5 },
+             { kind := .handler, aid := 2, down := [2], cycle := 3 },
+             { kind := .sink, aid := 3, up := [1] }]
+    assets := [.dev 0, .dev 1, .dev 2] }
+
+/-- the world is in the scope of stage R (its script re-wires), not in that of stage S1; it
+satisfies the registration invariant; the re-wiring is admissible and within the envelope -/
+theorem s1r_exRew : S1R exRew ∧ ¬ S1 exRew ∧ C20W.Reg exRew ∧ RewOK exRew 1 [0] ∧ EnvOK exRew := by
+  decide
+
+theorem fresh_exRew : C02.Fresh exRew := ⟨rfl, rfl, rfl, rfl, by decide⟩
+
+/-- the hypotheses of the closed-world theorem of stage R are satisfiable -/
+theorem goodR_exRew (n : Nat) : GoodR (runLoop n exRew.simulateInit) :=
+  wakeR_reachable s1r_exRew.1 (by decide) (by decide) (evOK_envAt5 _ rfl) fresh_exRew
+    s1r_exRew.2.2.1 (.loop n .init)
+
+/-- t = 1: the source holds part 0, has found nobody to hand it to (no downstream neighbour) and is
+flagged; the clock is about to advance to 5; the part is genuinely blocked -/
+example : (runLoop 2 exRew.simulateInit).now = 1 ∧ ClockAdvances (runLoop 2 exRew.simulateInit) ∧
+    ready (runLoop 2 exRew.simulateInit) 0 0 ∧ BlockedW (runLoop 2 exRew.simulateInit) 0 0 ∧
+    ((runLoop 2 exRew.simulateInit).dev 0).down = [] ∧
+    Quiescent (runLoop 2 exRew.simulateInit) := by decide
+
+/-- **Connection added.**  t = 5, right after the script: the source is connected to the free
+machine (`down = [1]`), which would accept its part; the source is no longer flagged and its
+hand-over attempt is queued for this very instant (W1): the clock is NOT about to advance -/
+example : (runLoop 3 exRew.simulateInit).now = 5 ∧
+    ((runLoop 3 exRew.simulateInit).dev 0).down = [1] ∧
+    ((runLoop 3 exRew.simulateInit).dev 1).up = [0] ∧
+    wouldAccept (runLoop 3 exRew.simulateInit).fuel (runLoop 3 exRew.simulateInit) 1 0 = true ∧
+    ((runLoop 3 exRew.simulateInit).dev 0).waitingDS = false ∧
+    Att (runLoop 3 exRew.simulateInit) 0 ∧ Wake (runLoop 3 exRew.simulateInit) ∧
+    ¬ ClockAdvances (runLoop 3 exRew.simulateInit) ∧ S1R (runLoop 3 exRew.simulateInit) := by decide
+
+/-- … and one event later — still at t = 5 — the part has moved into the machine -/
+example : (runLoop 4 exRew.simulateInit).now = 5 ∧
+    ((runLoop 4 exRew.simulateInit).dev 1).part = some 0 ∧
+    ((runLoop 4 exRew.simulateInit).dev 0).output = none := by decide
+
+/-- the theorem applies to the state at t = 6 (machine busy, source blocked behind it): quiescent -/
+example : Quiescent (runLoop 6 exRew.simulateInit) :=
+  no_lost_wakeup_rewire (goodR_exRew 6) (by decide)
+
+example : ready (runLoop 6 exRew.simulateInit) 0 1 ∧ BlockedW (runLoop 6 exRew.simulateInit) 0 1 ∧
+    wouldAccept (runLoop 6 exRew.simulateInit).fuel (runLoop 6 exRew.simulateInit) 1 1 = false := by
+  decide
+
+/-- source 0 → slow machine 1 (cycle 10) → sink 2; at t = 3 script 0 DISCONNECTS the machine from
+the source: `rewire 1 []` -/
+def exCut : World :=
+  { env := envAt 3 0
+    scripts := [[.rewire 1 []]]
+    devs := [{ kind := .source, aid := 1, down := [1], cycle := 1, maxParts := some 5 },
+             { kind := .handler, aid := 2, up := [0], down := [2], cycle := 10 },
+             { kind := .sink, aid := 3, up := [1] }]
+    assets := [.dev 0, .dev 1, .dev 2] }
+
+theorem s1r_exCut : S1R exCut ∧ C20W.Reg exCut := by decide
+
+theorem goodR_exCut (n : Nat) : GoodR (runLoop n exCut.simulateInit) :=
+  wakeR_reachable s1r_exCut.1 (by decide) (by decide) (evOK_envAt3 _ rfl)
+    ⟨rfl, rfl, rfl, rfl, by decide⟩ s1r_exCut.2 (.loop n .init)
+
+/-- **Connection removed.**  t = 11: the machine — the only would-be acceptor of the source's part —
+has finished, is free and WOULD accept, but it is no longer a downstream neighbour of the source
+(`down = []`); the source is still flagged, nothing is queued, the part is genuinely blocked: the
+state is quiescent (the removed device notifies its NEW upstream neighbours only — nobody) -/
+example : (runLoop 8 exCut.simulateInit).now = 11 ∧ ClockAdvances (runLoop 8 exCut.simulateInit) ∧
+    ready (runLoop 8 exCut.simulateInit) 0 1 ∧
+    ((runLoop 8 exCut.simulateInit).dev 0).down = [] ∧
+    wouldAccept (runLoop 8 exCut.simulateInit).fuel (runLoop 8 exCut.simulateInit) 1 1 = true ∧
+    BlockedW (runLoop 8 exCut.simulateInit) 0 1 ∧ Quiescent (runLoop 8 exCut.simulateInit) := by
+  decide
+
+example : Quiescent (runLoop 8 exCut.simulateInit) :=
+  no_lost_wakeup_rewire (goodR_exCut 8) (by decide)
+
+/-- an operation issued from outside (taken from the scripts' vocabulary): re-wiring at t = 1 -/
+example : GoodR ((runLoop 2 exRew.simulateInit).applyOp (.rewire 1 [0])).1 :=
+  wakeR_applyOp (goodR_exRew 2) _ ⟨_, List.mem_singleton.mpr rfl, List.mem_singleton.mpr rfl⟩
+
+/-! ### the restrictions of stage R are needed (machine-checked counterexamples) -/
+
+/-- as `exCut`, but the machine is entered TWICE in the source's `down` list; the script runs at
+t = 2 -/
+def cexDup : World :=
+  { env := envAt 2 0
+    scripts := [[.rewire 1 []]]
+    devs := [{ kind := .source, aid := 1, down := [1, 1], cycle := 1, maxParts := some 5 },
+             { kind := .handler, aid := 2, up := [0], down := [2], cycle := 3 },
+             { kind := .sink, aid := 3, up := [1] }]
+    assets := [.dev 0, .dev 1, .dev 2] }
+
+/-- **A re-wired device must be nobody's downstream neighbour twice** (`RewOK`, third clause).
+`set_upstream` removes ONE entry per old upstream neighbour: the machine stays in the source's
+`down` list but no longer notifies the source.  The world violates only that clause (without the
+script it is in the scope; it is fresh and registered); at t = 4 the queue runs empty while the
+source holds a ready part that the free machine would accept: a lost wake-up. -/
+theorem rewire_duplicate_false :
+    S1R { cexDup with scripts := [] } ∧ ¬ S1R cexDup ∧ C20W.Reg cexDup ∧ C02.Fresh cexDup ∧
+    (1 < cexDup.devs.length ∧ (cexDup.dev 1).kind ≠ .source ∧
+      ¬ ∀ d ∈ cexDup.devs, d.down.count 1 ≤ 1) ∧
+    ClockAdvances (runLoop 7 cexDup.simulateInit) ∧ ready (runLoop 7 cexDup.simulateInit) 0 1 ∧
+    1 ∈ ((runLoop 7 cexDup.simulateInit).dev 0).down ∧
+    wouldAccept (runLoop 7 cexDup.simulateInit).fuel (runLoop 7 cexDup.simulateInit) 1 1 = true ∧
+    ¬ Quiescent (runLoop 7 cexDup.simulateInit) := by
+  refine ⟨by decide, by decide, by decide, ⟨rfl, rfl, rfl, rfl, by decide⟩, by decide, by decide,
+    by decide, by decide, by decide, by decide⟩
+
+/-- source 0 → machine 1 (cycle 0, NOT registered with the system, hence never initialised); sink 2
+is not connected; at t = 5 script 0 connects the machine to the sink: `rewire 2 [1]` -/
+def cexIni : World :=
+  { env := envAt 5 0
+    scripts := [[.rewire 2 [1]]]
+    devs := [{ kind := .source, aid := 1, down := [1], cycle := 1, maxParts := some 5 },
+             { kind := .handler, aid := 2, up := [0] },
+             { kind := .sink, aid := 3 }]
+    assets := [.dev 0, .dev 2] }
+
+/-- **Every device must be registered (hence initialised)**: `set_upstream` tells a new upstream
+neighbour about the space downstream only if that neighbour has been initialised.  The world is in
+the scope and fresh, only the registration invariant fails (device 1 is not registered); after the
+script has connected the flagged machine 1 to the free sink nothing is queued: a lost wake-up. -/
+theorem rewire_uninitialised_false :
+    S1R cexIni ∧ ¬ C20W.Reg cexIni ∧ C02.Fresh cexIni ∧
+    ClockAdvances (runLoop 6 cexIni.simulateInit) ∧ ready (runLoop 6 cexIni.simulateInit) 1 0 ∧
+    2 ∈ ((runLoop 6 cexIni.simulateInit).dev 1).down ∧
+    wouldAccept (runLoop 6 cexIni.simulateInit).fuel (runLoop 6 cexIni.simulateInit) 2 0 = true ∧
+    ¬ Quiescent (runLoop 6 cexIni.simulateInit) := by
+  refine ⟨by decide, by decide, ⟨rfl, rfl, rfl, rfl, by decide⟩, by decide, by decide, by decide,
+    by decide, by decide⟩
+
+/-- source 0 → gate 1 → sink 3; gate 2 → gate 1; script 0 makes gate 1 an upstream neighbour of
+gate 2: a cycle of gates 1 → 2 → 1 -/
+def cexCyc : World :=
+  { env := envAt 5 0
+    scripts := [[.rewire 2 [1]]]
+    devs := [{ kind := .source, aid := 1, down := [1], cycle := 1, maxParts := some 5 },
+             { kind := .gate, aid := 2, up := [0, 2], down := [3] },
+             { kind := .gate, aid := 3, down := [1] },
+             { kind := .sink, aid := 4, up := [1], cycle := 10 }]
+    assets := [.dev 0, .dev 1, .dev 2, .dev 3] }
+
+/-- **The connections the scripts may add must keep the controller conditions** (`EnvOK`: checked
+on the envelope, i.e. on the script text).  Without the script the world is in the scope; the
+script is admissible device by device (`RewOK`), only `EnvOK` fails; after the script has run the
+static class of the machinery is broken (gate 1 reaches itself through gates). -/
+theorem rewire_cycle_breaks_scope :
+    S1R { cexCyc with scripts := [] } ∧ RewOK cexCyc 2 [1] ∧ ¬ EnvOK cexCyc ∧ ¬ S1R cexCyc ∧
+    (runLoop 5 cexCyc.simulateInit).now = 5 ∧
+    ((runLoop 5 cexCyc.simulateInit).dev 1).down = [3, 2] ∧
+    ((runLoop 5 cexCyc.simulateInit).dev 2).down = [1] ∧
+    ¬ SC { runLoop 5 cexCyc.simulateInit with scripts := [] } := by decide
+
+/-- script 0 gives the SOURCE an upstream neighbour / re-wires a device that does not exist -/
+def cexSrc : World :=
+  { scripts := [[.rewire 0 [1]]]
+    devs := [{ kind := .source, aid := 1, down := [1], cycle := 1, maxParts := some 5 },
+             { kind := .handler, aid := 2, up := [0], down := [2] },
+             { kind := .sink, aid := 3, up := [1] }]
+    assets := [.dev 0, .dev 1, .dev 2] }
+
+def cexOut : World := { cexSrc with scripts := [[.rewire 7 [1]]] }
+
+/-- **A source gets no upstream neighbour, the re-wired device exists** (`RewOK`, first two
+clauses): otherwise the static class is broken after the script (a source / a device that does not
+exist becomes somebody's downstream neighbour — the hand-over would "deliver" a part to it). -/
+theorem rewire_source_breaks_scope :
+    S1R { cexSrc with scripts := [] } ∧ ¬ S1R cexSrc ∧ ¬ S1R cexOut ∧
+    ¬ SC { cexSrc.simulateInit.exec (.script 0) with scripts := [] } ∧
+    ¬ SC { cexOut.simulateInit.exec (.script 0) with scripts := [] } ∧
+    wouldAccept (cexOut.simulateInit.exec (.script 0)).fuel (cexOut.simulateInit.exec (.script 0)) 7 0
+      = true := by decide
+
+/-! ## STAGES A, B, C with re-wiring issued from outside
+
+The classes of the resource theorems (`C11W.S`) and of the batcher / conservation theorems (`C17W`,
+`C02V.Static`) — which may not be changed — do not admit `rewire` in SCRIPTS; the invariants they
+maintain (`C11W.Inv`, `C17W.CI`) are, however, not disturbed by a re-wiring (`inv11_rewire`,
+`ci_rewire`).  Hence: in the scopes `S2 ⊆ S3 ⊆ S4` the line may be re-wired FROM OUTSIDE between two
+events (any admissible re-wiring after which the world is in the scope: `RewOK`, `S4`-part `SC` of
+the re-wired world — decidable on the current world), and no wake-up is lost. -/
+
+/-- **Reachable states** (stages A, B, C with outside re-wiring). -/
+inductive ReachC (w0 : World) : World → Prop
+  | init : ReachC w0 w0.simulateInit
+  | step {w w' : World} {e : Event} : ReachC w0 w → w.step = some (e, w') → ReachC w0 w'
+  | loop {w : World} (n : Nat) : ReachC w0 w → ReachC w0 (runLoop n w)
+  | run {w : World} (d : Int) : ReachC w0 w → ReachC w0 (w.runBegin d).1
+  | rew {w : World} (x : Nat) (ups : List Nat) : ReachC w0 w → RewOK w x ups →
+      SC (w.rewire x ups) → ReachC w0 (w.applyOp (.rewire x ups)).1
+
+/-- **`wakeC_rewire`**: a re-wiring issued from outside preserves the invariant of stages A, B, C
+and the scope. -/
+theorem wakeC_rewire {w : World} (hs : S4 w) (h : GoodB w) (hi : Ini w) (x : Nat) (ups : List Nat)
+    (hok : RewOK w x ups) (hfin : SC (w.rewire x ups)) :
+    GoodB (w.rewire x ups) ∧ S4 (w.rewire x ups) ∧ Ini (w.rewire x ups) := by
+  obtain ⟨h1, h2⟩ := h.rewireD hi hs.1.2 (fun hn => (hs.2.2 hn).1) x ups hok hfin
+  exact ⟨h1, hs.rewire x ups hfin, h2⟩
+
+/-- **In every reachable state** (events, runs, outside re-wirings) of a fresh world of the scope
+`S4` that satisfies the registration invariant: the invariant of stages A, B, C holds, the world is
+in the scope, every device has been initialised. -/
+theorem wakeC_rewire_reachable {w0 w : World} (hs : S4 w0) (hi : C01.Inv w0.env) (h0 : 0 ≤ w0.now)
+    (he : EvOK w0) (hf : FreshA w0) (hreg : C20W.Reg w0) (hr : ReachC w0 w) :
+    GoodB w ∧ S4 w ∧ Ini w := by
+  induction hr with
+  | init =>
+    have hg := wakeC_init hs hi h0 he hf
+    exact ⟨hg, hs.of_sw hg.g.sc (sw_simulateInit w0) (C02V.ss_simulateInit w0), ini_simulateInit hreg⟩
+  | step _ hst ih => exact ⟨ih.1.step hst, s4_step ih.2.1 ih.1 hst, ih.2.2.step (istep_step hst)⟩
+  | loop n _ ih => exact ⟨ih.1.runLoop n, s4_runLoop n ih.2.1 ih.1, ih.2.2.step (istep_runLoop n _)⟩
+  | run d _ ih =>
+    exact ⟨ih.1.runBegin d, ih.2.1.of_sw (ih.1.runBegin d).g.sc (sw_runBegin _ d) (ss_runBegin _ d),
+      ih.2.2.step (istep_runBegin _ d)⟩
+  | rew x ups _ hok hfin ih => exact wakeC_rewire ih.2.1 ih.1 ih.2.2 x ups hok hfin
+
+/-- **The closed-world statement of stages A, B, C with re-wiring issued from outside**: whenever
+the clock is about to advance no ready part could be handed over — resources, batchers and the
+shared group included, in the wiring of that moment. -/
+theorem no_lost_wakeupC_rewire_reachable {w0 w : World} (hs : S4 w0) (hi : C01.Inv w0.env)
+    (h0 : 0 ≤ w0.now) (he : EvOK w0) (hf : FreshA w0) (hreg : C20W.Reg w0) (hr : ReachC w0 w)
+    (hc : ClockAdvances w) : Quiescent w :=
+  no_lost_wakeupC (wakeC_rewire_reachable hs hi h0 he hf hreg hr).1 hc
+
+/-- The same under its `_partial` name: in the scopes S2 / S3 / S4 AS THEY ARE (classes of C11W /
+C17W: no `rewire` in scripts) re-wiring is covered when issued from outside; re-wiring IN SCRIPTS for
+the whole scope is stage RF below (`no_lost_wakeup_rewire_all_reachable`). -/
+theorem no_lost_wakeupC_rewire_partial {w0 w : World} (hs : S4 w0) (hi : C01.Inv w0.env)
+    (h0 : 0 ≤ w0.now) (he : EvOK w0) (hf : FreshA w0) (hreg : C20W.Reg w0) (hr : ReachC w0 w)
+    (hc : ClockAdvances w) : Quiescent w :=
+  no_lost_wakeupC_rewire_reachable hs hi h0 he hf hreg hr hc
+
+/-! ### non-vacuity: a by-pass connected from outside -/
+
+/-- `exWaiting` (t = 1: the source is blocked in front of the processor that cannot get its
+resources) is reachable; the re-wiring `rewire 2 [0, 1]` (the sink becomes a downstream neighbour of
+the source as well) is admissible there and leaves the world in the scope -/
+theorem reachC_exWaiting : ReachC exRes exWaiting ∧ C20W.Reg exRes ∧ RewOK exWaiting 2 [0, 1] ∧
+    SC (exWaiting.rewire 2 [0, 1]) :=
+  ⟨.loop 3 .init, by decide, by decide, by decide⟩
+
+/-- the state after the outside re-wiring is covered by the theorem … -/
+example : GoodB (exWaiting.rewire 2 [0, 1]) :=
+  (wakeC_rewire_reachable s2_exRes.1.s3.s4 (by decide) (by decide) evOK_exRes freshA_exRes
+    reachC_exWaiting.2.1
+    (.rew 2 [0, 1] reachC_exWaiting.1 reachC_exWaiting.2.2.1 reachC_exWaiting.2.2.2)).1
+
+/-- … the flagged source has been woken at once (its attempt is queued for t = 1, the present
+instant), and one event later — still at t = 1 — its part has gone to the sink past the processor
+that is still waiting for its resources -/
+example : (exWaiting.dev 0).waitingDS = true ∧
+    ((exWaiting.rewire 2 [0, 1]).dev 0).down = [1, 2] ∧
+    ((exWaiting.rewire 2 [0, 1]).dev 0).waitingDS = false ∧ Att (exWaiting.rewire 2 [0, 1]) 0 ∧
+    ¬ ClockAdvances (exWaiting.rewire 2 [0, 1]) ∧
+    (runLoop 1 (exWaiting.rewire 2 [0, 1])).now = 1 ∧
+    ((runLoop 1 (exWaiting.rewire 2 [0, 1])).dev 0).output = none ∧
+    (runLoop 1 (exWaiting.rewire 2 [0, 1])).delivered = [0] ∧
+    ((runLoop 1 (exWaiting.rewire 2 [0, 1])).dev 1).waitingRes = true := by decide
+
+/-- the same re-wiring in front of the blocked batcher line is admissible, too -/
+example : RewOK exBatBlocked 2 [0, 1] ∧ SC (exBatBlocked.rewire 2 [0, 1]) ∧ C20W.Reg exBat := by
+  decide
+
+/-! ## STAGE RA: resources AND re-wiring in scripts
+
+`S2R w` — the scope of stage A (processors may declare resource requirements), but scripts MAY
+contain `rewire x ups`: the machinery's scope `SC` without batchers, batches and groups, and — if a
+requirement is declared — the class `C11W.S` of the resource theorems FOR THE SCRIPTS WITHOUT THEIR
+RE-WIRINGS (`S11R`).  The resource invariant `C11W.Inv` is carried for the world without its
+scripts (`es w []`; no function of the model but `runScript` reads them: `Proofs/C03YEs*.lean`). -/
+
+/-- **The scope of stage A with mid-run re-wiring.** -/
+def S2R (w : World) : Prop := SC w ∧ NoBatch w ∧ (hasRes w = true → S11R w)
+
+instance (w : World) : Decidable (S2R w) := by unfold S2R; infer_instance
+
+theorem S1R.s2r {w : World} (h : S1R w) : S2R w :=
+  ⟨h.1, h.2.2.1, fun hr => by rw [h.2.1] at hr; cases hr⟩
+
+/-- Everything the closed-world induction carries (stage RA). -/
+structure GoodE (w : World) : Prop where
+  g : G [] [] [] w
+  nb : NoBatch w
+  /-- the resource invariant of C11W, for the world without its scripts -/
+  r : hasRes w = true → C11W.Inv (es w [])
+  s : hasRes w = true → S11R w
+  i : IOK w
+
+theorem GoodE.s2r {w : World} (h : GoodE w) : S2R w := ⟨h.g.sc, h.nb, h.s⟩
+
+theorem GoodE.pend {w : World} (h : GoodE w) (hr : hasRes w = true) : C11W.Pend w := (h.r hr).pend
+
+theorem GoodE.procs {w : World} (h : GoodE w) (hr : hasRes w = true) :
+    ∀ e ∈ w.rm.waiting, ∃ x, e.2 = Cb.proc x := by
+  rcases h.g.wr with hn | hreg
+  · rw [hr] at hn; cases hn
+  · exact hreg.1
+
+/-- **RA2. `wakeE_step`**: every event preserves the invariant (scope included). -/
+theorem wakeE_step {w w' : World} {e : Event} (h : GoodE w) (hst : w.step = some (e, w')) :
+    GoodE w' := by
+  have r := swrw_step w w' e h.g.sc.nc hst
+  have hres : hasRes w' = true → hasRes w = true := fun hr => by rw [← hasRes_of_swr' r]; exact hr
+  exact ⟨h.g.stepG (invB_of_noBatch h.nb) (settled_of_noBatch h.nb) h.i hst,
+    (noBatch_of_swr' r).mpr h.nb,
+    fun hr => inv11_es_step (h.r (hres hr)) (h.s (hres hr)).opsOK h.g.sc.nc (h.procs (hres hr)) hst,
+    fun hr => (h.s (hres hr)).of_step r, h.i.step (istep_step hst)⟩
+
+theorem wakeE_runLoop (n : Nat) : ∀ {w : World}, GoodE w → GoodE (runLoop n w) := by
+  induction n with
+  | zero =>
+    intro w h
+    have r := swrw_runLoop 0 w h.g.sc.nc
+    have hres : hasRes (runLoop 0 w) = true → hasRes w = true :=
+      fun hr => by rw [← hasRes_of_swr' r]; exact hr
+    refine ⟨h.g.setErr _, (noBatch_of_swr' r).mpr h.nb, fun hr => ?_, fun hr => (h.s (hres hr)).of_step r,
+      h.i.step (istep_runLoop 0 w)⟩
+    show C11W.Inv (es (w.setErr "fuel") [])
+    rw [← es_setErr]
+    exact (h.r (hres hr)).mono (C11W.monoS_setErr _ _).toMono
+  | succ n ih =>
+    intro w h
+    unfold World.runLoop
+    split
+    · split
+      · exact h
+      · next e w' hst => exact ih (wakeE_step h hst)
+    · exact h
+
+theorem wakeE_runBegin {w : World} (h : GoodE w) (d : Int) : GoodE (w.runBegin d).1 := by
+  have r := swrw_runBegin w d
+  have hres : hasRes (w.runBegin d).1 = true → hasRes w = true :=
+    fun hr => by rw [← hasRes_of_swr' r]; exact hr
+  refine ⟨h.g.runBeginG d, (noBatch_of_swr' r).mpr h.nb, fun hr => ?_,
+    fun hr => (h.s (hres hr)).of_step r, h.i.step (istep_runBegin w d)⟩
+  rw [← es_runBegin]
+  exact C11W.inv_runBegin (es w []) d (h.r (hres hr))
+
+/-- **RA1. `wakeE_init`**: after `simulateInit` of a fresh world of the scope that satisfies the
+registration invariant the invariant holds. -/
+theorem wakeE_init {w : World} (hs : S2R w) (hi : C01.Inv w.env) (h0 : 0 ≤ w.now) (he : EvOK w)
+    (hf : FreshA w) (hreg : C20W.Reg w) : GoodE w.simulateInit := by
+  have hg : G [] [] [] w :=
+    ⟨hs.1, fun _ => partsLeaf_fresh hf.1, hi, h0, he, heldValid_fresh hf.1,
+      kidsValid_of_leaf (partsLeaf_fresh hf.1), stkOK_of_noParts hf.1.1,
+      wr_fresh hf.2.1 (fun hr => (hf.2.2 hr).2.2.1), (fun _ hx => nomatch hx), wakeG_fresh hf.1⟩
+  have r := swrw_simulateInit w
+  have hres : hasRes w.simulateInit = true → hasRes w = true :=
+    fun hr => by rw [← hasRes_of_swr' r]; exact hr
+  refine ⟨hg.simulateInitG, (noBatch_of_swr' r).mpr hs.2.1, fun hr => ?_,
+    fun hr => (hs.2.2 (hres hr)).of_step r, Or.inr (ini_simulateInit hreg)⟩
+  rw [← es_simulateInit]
+  exact C11W.inv_simulateInit (es w []) (hs.2.2 (hres hr)).nil (hf.2.2 (hres hr))
+
+/-- an operation issued from outside that some script of the world contains -/
+theorem wakeE_applyOp {w : World} (h : GoodE w) (o : Op) (ho : ∃ l ∈ w.scripts, o ∈ l) :
+    GoodE (w.applyOp o).1 := by
+  obtain ⟨l, hl, hol⟩ := ho
+  have hop := h.g.sc.scriptOp hl hol
+  have hnc := opSC_not_create hop
+  have r : C02V.swr (w.applyOp o).1 = C02V.swr w := C02V.swr_applyOp w o hnc
+  have hres : hasRes (w.applyOp o).1 = true → hasRes w = true :=
+    fun hr => by rw [← hasRes_of_swr r]; exact hr
+  refine ⟨h.g.applyOpG o hop h.i ⟨l, hl, hol⟩, (noBatch_of_swr r).mpr h.nb,
+    fun hr => inv11_es_applyOp1 (h.r (hres hr)) o ((h.s (hres hr)).opsOK l hl o hol) hnc,
+    fun hr => (h.s (hres hr)).of_swr r (C02V.scr_applyOp w o), ?_⟩
+  exact (h.i.step (istep_applyOp w o hnc)).step ⟨rfl, C20W.Pv.of_same rfl⟩
+
+/-- a re-wiring issued from outside (admissible, leaves the world in the scope) -/
+theorem wakeE_rewire {w : World} (h : GoodE w) (hi : Ini w) (x : Nat) (ups : List Nat)
+    (hok : RewOK w x ups) (hfin : SC (w.rewire x ups)) :
+    GoodE (w.rewire x ups) ∧ Ini (w.rewire x ups) := by
+  have r : C02V.swr (w.rewire x ups) = C02V.swr w := C02V.swr_rewire w x ups
+  have hres : hasRes (w.rewire x ups) = true → hasRes w = true :=
+    fun hr => by rw [← hasRes_of_swr r]; exact hr
+  have hi' : Ini (w.rewire x ups) :=
+    hi.step ⟨C02V.scr_rewire w x ups, C20W.Pv_applyOp w (.rewire x ups) rfl⟩
+  refine ⟨⟨h.g.rewireD x ups hok hfin (fun z hz => hi.inited hz), (noBatch_of_swr r).mpr h.nb,
+    fun hr => ?_, fun hr => (h.s (hres hr)).of_swr r (C02V.scr_rewire w x ups), Or.inr hi'⟩, hi'⟩
+  rw [← es_rewire]
+  exact inv11_rewire (h.r (hres hr)) x ups
+
+/-- **Reachable states** (stage RA): as `ReachR`. -/
+inductive ReachE (w0 : World) : World → Prop
+  | init : ReachE w0 w0.simulateInit
+  | step {w w' : World} {e : Event} : ReachE w0 w → w.step = some (e, w') → ReachE w0 w'
+  | loop {w : World} (n : Nat) : ReachE w0 w → ReachE w0 (runLoop n w)
+  | run {w : World} (d : Int) : ReachE w0 w → ReachE w0 (w.runBegin d).1
+  | op {w : World} (o : Op) : ReachE w0 w → (∃ l ∈ w.scripts, o ∈ l) → ReachE w0 (w.applyOp o).1
+  | rew {w : World} (x : Nat) (ups : List Nat) : ReachE w0 w → RewOK w x ups →
+      SC (w.rewire x ups) → ReachE w0 (w.applyOp (.rewire x ups)).1
+
+/-- **RA3. `wakeE_reachable`**: the invariant holds in every reachable state (and every device has
+been initialised). -/
+theorem wakeE_reachable {w0 w : World} (hs : S2R w0) (hi : C01.Inv w0.env) (h0 : 0 ≤ w0.now)
+    (he : EvOK w0) (hf : FreshA w0) (hreg : C20W.Reg w0) (hr : ReachE w0 w) : GoodE w ∧ Ini w := by
+  induction hr with
+  | init => exact ⟨wakeE_init hs hi h0 he hf hreg, ini_simulateInit hreg⟩
+  | step _ hst ih => exact ⟨wakeE_step ih.1 hst, ih.2.step (istep_step hst)⟩
+  | loop n _ ih => exact ⟨wakeE_runLoop n ih.1, ih.2.step (istep_runLoop n _)⟩
+  | run d _ ih => exact ⟨wakeE_runBegin ih.1 d, ih.2.step (istep_runBegin _ d)⟩
+  | @op w o _ ho ih =>
+    obtain ⟨l, hl, hol⟩ := ho
+    have hnc := opSC_not_create (ih.1.g.sc.scriptOp hl hol)
+    exact ⟨wakeE_applyOp ih.1 o ⟨l, hl, hol⟩,
+      (ih.2.step (istep_applyOp w o hnc)).step ⟨rfl, C20W.Pv.of_same rfl⟩⟩
+  | rew x ups _ hok hfin ih => exact wakeE_rewire ih.1 ih.2 x ups hok hfin
+
+/-- the three clauses (W1), (W2), (W3) in stage RA -/
+theorem wakeE_w3 {w : World} (h : GoodE w) (d p : Nat) (hd : holdsD (w.dev d) = some p) :
+    Att w d ∨ BlockedW w d p ∨
+      ((w.dev d).waitingDS = true ∧ C11W.QueuedL w .rmCheck w.now pOtherHigh (-1)) :=
+  wake_w3_of h.g h.pend d p hd
+
+theorem blocked_genuinelyA_rewire {w : World} (h : GoodE w) (hc : ClockAdvances w) (d p : Nat)
+    (hr : ready w d p) : BlockedW w d p := blocked_genuinely_of h.g h.pend hc d p hr
+
+theorem no_lost_wakeupA_rewire {w : World} (h : GoodE w) (hc : ClockAdvances w) : Quiescent w :=
+  quiescent_of h.g h.pend hc
+
+/-- **The closed-world statement of stage A with mid-run re-wiring** (in scripts and from outside):
+whenever the clock is about to advance no ready part could be handed over — resources included,
+in the wiring of that moment. -/
+theorem no_lost_wakeupA_rewire_reachable {w0 w : World} (hs : S2R w0) (hi : C01.Inv w0.env)
+    (h0 : 0 ≤ w0.now) (he : EvOK w0) (hf : FreshA w0) (hreg : C20W.Reg w0) (hr : ReachE w0 w)
+    (hc : ClockAdvances w) : Quiescent w :=
+  no_lost_wakeupA_rewire (wakeE_reachable hs hi h0 he hf hreg hr).1 hc
+
+/-- the scope is preserved -/
+theorem s2r_reachable {w0 w : World} (hs : S2R w0) (hi : C01.Inv w0.env) (h0 : 0 ≤ w0.now)
+    (he : EvOK w0) (hf : FreshA w0) (hreg : C20W.Reg w0) (hr : ReachE w0 w) : S2R w :=
+  (wakeE_reachable hs hi h0 he hf hreg hr).1.s2r
+
+/-! ### non-vacuity, stage RA -/
+
+/-- source 0 → processor 1 (needs one unit of pool 0, capacity 0) → sink 2; at t = 5 script 0
+connects the sink to the source as well (a by-pass: `rewire 2 [0, 1]`) and adds one unit -/
+def exResRew : World :=
+  { env := envAt 5 0
+    scripts := [[.rewire 2 [0, 1], .addRes 0 1]]
+    rm := { pools := [(0, 0, 0)] }
+    devs := [{ kind := .source, aid := 1, down := [1], cycle := 1, maxParts := some 3 },
+             { kind := .processor, aid := 2, up := [0], down := [2], cycle := 2, resReq := some [(0, 1)] },
+             { kind := .sink, aid := 3, up := [1] }]
+    assets := [.dev 0, .dev 1, .dev 2] }
+
+/-- in the scope of stage RA (a requirement is declared AND a script re-wires): neither in that of
+stage R nor in that of stage A -/
+theorem s2r_exResRew : S2R exResRew ∧ ¬ S1R exResRew ∧ ¬ S2 exResRew ∧ C20W.Reg exResRew ∧
+    hasRes exResRew = true := by decide
+
+theorem freshA_exResRew : FreshA exResRew :=
+  ⟨⟨rfl, rfl, rfl, rfl, by decide⟩, by decide, fun _ => by decide⟩
+
+/-- the hypotheses of the closed-world theorem of stage RA are satisfiable -/
+theorem goodE_exResRew (n : Nat) : GoodE (runLoop n exResRew.simulateInit) :=
+  (wakeE_reachable s2r_exResRew.1 (by decide) (by decide) (evOK_envAt5 _ rfl) freshA_exResRew
+    s2r_exResRew.2.2.2.1 (.loop n .init)).1
+
+/-- t = 1: the source is blocked in front of the processor, which is registered with the resource
+manager; the clock is about to advance to 5; genuinely blocked -/
+example : (runLoop 3 exResRew.simulateInit).now = 1 ∧ ClockAdvances (runLoop 3 exResRew.simulateInit) ∧
+    ready (runLoop 3 exResRew.simulateInit) 0 0 ∧
+    ((runLoop 3 exResRew.simulateInit).dev 1).waitingRes = true ∧
+    BlockedW (runLoop 3 exResRew.simulateInit) 0 0 ∧ Quiescent (runLoop 3 exResRew.simulateInit) := by
+  decide
+
+example : Quiescent (runLoop 3 exResRew.simulateInit) :=
+  no_lost_wakeupA_rewire (goodE_exResRew 3) (by decide)
+
+/-- t = 5, right after the script: the by-pass is connected (`down = [1, 2]`), the source has its
+attempt queued for this instant (W1), and the manager's availability check is queued as well -/
+example : (runLoop 4 exResRew.simulateInit).now = 5 ∧
+    ((runLoop 4 exResRew.simulateInit).dev 0).down = [1, 2] ∧
+    ((runLoop 4 exResRew.simulateInit).dev 0).waitingDS = false ∧
+    Att (runLoop 4 exResRew.simulateInit) 0 ∧
+    C11W.QueuedL (runLoop 4 exResRew.simulateInit) .rmCheck 5 pOtherHigh (-1) ∧
+    ¬ ClockAdvances (runLoop 4 exResRew.simulateInit) ∧ S2R (runLoop 4 exResRew.simulateInit) := by
+  decide
+
+/-- later the parts flow through both branches: t = 7, parts 1 and 2 have reached the sink through
+the by-pass, part 0 through the processor -/
+example : (runLoop 12 exResRew.simulateInit).now = 7 ∧
+    (runLoop 12 exResRew.simulateInit).delivered = [1, 2, 0] := by decide
+
+/-! ## STAGE RF: the whole scope (resources, batchers, batches, the shared group) AND re-wiring in
+scripts
+
+`S4R w ⊇ S4 w, S2R w` — the machinery's scope `SC` (scripts may re-wire), with the classes of the
+resource theorems (`S11R`: the re-wirings of the scripts aside) and of the batcher / conservation
+theorems (`ScrB`, `SizesPos`) where they are needed.  Both auxiliary invariants are carried for
+the world without its scripts: `C11W.Inv (es w [])`, `C17W.CI (es w [])` (`Proofs/C03YResR.lean`,
+`Proofs/C03YBatR.lean`). -/
+
+/-- **The whole scope with mid-run re-wiring.** -/
+def S4R (w : World) : Prop :=
+  SC w ∧ (hasRes w = true → S11R w) ∧ (¬ NoBatch w → ScrB w ∧ C17W.SizesPos w)
+
+instance (w : World) : Decidable (S4R w) := by unfold S4R; infer_instance
+
+theorem S2R.s4r {w : World} (h : S2R w) : S4R w := ⟨h.1, h.2.2, fun hn => absurd h.2.1 hn⟩
+
+/-- the class of C11W implies the class "re-wirings aside" -/
+theorem s11R_of_S {w : World} (h : C11W.S w) : S11R w := by
+  unfold S11R C11W.S C11W.SB at *
+  simp only [es_devs, es_scripts, sc, Bool.and_eq_true, List.all_eq_true] at h ⊢
+  refine ⟨⟨⟨⟨fun l hl op hop => ?_, h.1.1.1.2⟩, h.1.1.2⟩, h.1.2⟩, h.2⟩
+  obtain ⟨l0, hl0, rfl⟩ := List.mem_map.mp hl
+  exact h.1.1.1.1 l0 hl0 op (List.mem_filter.mp hop).1
+
+theorem S4.s4r {w : World} (h : S4 w) : S4R w := ⟨h.1.1, fun hr => s11R_of_S (h.2.1 hr), h.2.2⟩
+
+/-- Everything the closed-world induction carries (stage RF). -/
+structure GoodF (w : World) : Prop where
+  g : G [] [] [] w
+  r : hasRes w = true → C11W.Inv (es w [])
+  s : hasRes w = true → S11R w
+  c : ¬ NoBatch w → C17W.CI (es w [])
+  cs : ¬ NoBatch w → ScrB w ∧ C17W.SizesPos w
+  i : IOK w
+
+theorem GoodF.s4r {w : World} (h : GoodF w) : S4R w := ⟨h.g.sc, h.s, h.cs⟩
+
+theorem GoodF.invB {w : World} (h : GoodF w) : InvB w :=
+  fun hnb => (h.c hnb).inv.of_sv (w := es w []) (w' := w) rfl
+
+theorem GoodF.settled {w : World} (h : GoodF w) : Settled w := by
+  intro x hk ho
+  have hnb : ¬ NoBatch w := fun hn => (noBatch_dev hn x).1 hk
+  rcases ((h.c hnb).bat x hk).settled with h1 | h1
+  · have h1' : (w.dev x).output.isSome = true := h1
+    rw [ho] at h1'; cases h1'
+  · exact h1
+
+theorem GoodF.procs {w : World} (h : GoodF w) (hr : hasRes w = true) :
+    ∀ e ∈ w.rm.waiting, ∃ x, e.2 = Cb.proc x := by
+  rcases h.g.wr with hn | hreg
+  · rw [hr] at hn; cases hn
+  · exact hreg.1
+
+theorem GoodF.gci {w : World} (h : GoodF w) (hn : ¬ NoBatch w) : GCI w :=
+  ⟨h.c hn, h.g.sc, (h.cs hn).1⟩
+
+theorem GoodF.pend {w : World} (h : GoodF w) (hr : hasRes w = true) : C11W.Pend w := (h.r hr).pend
+
+/-- **RF2. `wakeF_step`**: every event preserves the invariant (scope included). -/
+theorem wakeF_step {w w' : World} {e : Event} (h : GoodF w) (hst : w.step = some (e, w')) :
+    GoodF w' := by
+  have r := swrw_step w w' e h.g.sc.nc hst
+  have hres : hasRes w' = true → hasRes w = true := fun hr => by rw [← hasRes_of_swr' r]; exact hr
+  have hnb : ¬ NoBatch w' → ¬ NoBatch w := fun hn hb => hn ((noBatch_of_swr' r).mpr hb)
+  exact ⟨h.g.stepG h.invB h.settled h.i hst,
+    fun hr => inv11_es_step (h.r (hres hr)) (h.s (hres hr)).opsOK h.g.sc.nc (h.procs (hres hr)) hst,
+    fun hr => (h.s (hres hr)).of_step r,
+    fun hn => ((h.gci (hnb hn)).step hst).1,
+    fun hn => ⟨((h.gci (hnb hn)).step hst).2.scrB, sizesPos_of_swr r.1 (h.cs (hnb hn)).2⟩,
+    h.i.step (istep_step hst)⟩
+
+theorem wakeF_runLoop (n : Nat) : ∀ {w : World}, GoodF w → GoodF (runLoop n w) := by
+  induction n with
+  | zero =>
+    intro w h
+    have r := swrw_runLoop 0 w h.g.sc.nc
+    have hres : hasRes (runLoop 0 w) = true → hasRes w = true :=
+      fun hr => by rw [← hasRes_of_swr' r]; exact hr
+    have hnb : ¬ NoBatch (runLoop 0 w) → ¬ NoBatch w := fun hn hb => hn ((noBatch_of_swr' r).mpr hb)
+    refine ⟨h.g.setErr _, fun hr => ?_, fun hr => (h.s (hres hr)).of_step r,
+      fun hn => ((h.gci (hnb hn)).setErr _).1,
+      fun hn => ⟨((h.gci (hnb hn)).setErr _).2.scrB, sizesPos_of_swr r.1 (h.cs (hnb hn)).2⟩,
+      h.i.step (istep_runLoop 0 w)⟩
+    show C11W.Inv (es (w.setErr "fuel") [])
+    rw [← es_setErr]
+    exact (h.r (hres hr)).mono (C11W.monoS_setErr _ _).toMono
+  | succ n ih =>
+    intro w h
+    unfold World.runLoop
+    split
+    · split
+      · exact h
+      · next e w' hst => exact ih (wakeF_step h hst)
+    · exact h
+
+theorem wakeF_runBegin {w : World} (h : GoodF w) (d : Int) : GoodF (w.runBegin d).1 := by
+  have r := swrw_runBegin w d
+  have hres : hasRes (w.runBegin d).1 = true → hasRes w = true :=
+    fun hr => by rw [← hasRes_of_swr' r]; exact hr
+  have hnb : ¬ NoBatch (w.runBegin d).1 → ¬ NoBatch w := fun hn hb => hn ((noBatch_of_swr' r).mpr hb)
+  refine ⟨h.g.runBeginG d, fun hr => ?_, fun hr => (h.s (hres hr)).of_step r, fun hn => ?_,
+    fun hn => ⟨scrB_of_kind r.2 (fun y => stat0_kind (stat0_of_swr r.1 y)) (h.cs (hnb hn)).1,
+      sizesPos_of_swr r.1 (h.cs (hnb hn)).2⟩, h.i.step (istep_runBegin w d)⟩
+  · rw [← es_runBegin]
+    exact C11W.inv_runBegin (es w []) d (h.r (hres hr))
+  · rw [← es_runBegin]
+    exact C17W.ci_runBegin (es w []) d (h.c (hnb hn))
+
+/-- **RF1. `wakeF_init`**: after `simulateInit` of a fresh world of the scope that satisfies the
+registration invariant the invariant holds. -/
+theorem wakeF_init {w : World} (hs : S4R w) (hi : C01.Inv w.env) (h0 : 0 ≤ w.now) (he : EvOK w)
+    (hf : FreshA w) (hreg : C20W.Reg w) : GoodF w.simulateInit := by
+  have hg : G [] [] [] w :=
+    ⟨hs.1, fun _ => partsLeaf_fresh hf.1, hi, h0, he, heldValid_fresh hf.1,
+      kidsValid_of_leaf (partsLeaf_fresh hf.1), stkOK_of_noParts hf.1.1,
+      wr_fresh hf.2.1 (fun hr => (hf.2.2 hr).2.2.1), (fun _ hx => nomatch hx), wakeG_fresh hf.1⟩
+  have r := swrw_simulateInit w
+  have hres : hasRes w.simulateInit = true → hasRes w = true :=
+    fun hr => by rw [← hasRes_of_swr' r]; exact hr
+  have hnb : ¬ NoBatch w.simulateInit → ¬ NoBatch w := fun hn hb => hn ((noBatch_of_swr' r).mpr hb)
+  refine ⟨hg.simulateInitG, fun hr => ?_, fun hr => (hs.2.1 (hres hr)).of_step r, fun hn => ?_,
+    fun hn => ⟨scrB_of_kind r.2 (fun y => stat0_kind (stat0_of_swr r.1 y)) (hs.2.2 (hnb hn)).1,
+      sizesPos_of_swr r.1 (hs.2.2 (hnb hn)).2⟩, Or.inr (ini_simulateInit hreg)⟩
+  · rw [← es_simulateInit]
+    exact C11W.inv_simulateInit (es w []) (hs.2.1 (hres hr)).nil (hf.2.2 (hres hr))
+  · rw [← es_simulateInit]
+    refine C17W.ci_init (es w []) ⟨hf.1, ?_, (hs.2.2 (hnb hn)).2⟩
+    exact static_of hs.1.es_nil (fun l hl => nomatch hl) (fun l hl => nomatch hl) he
+
+/-- an operation issued from outside that some script of the world contains -/
+theorem wakeF_applyOp {w : World} (h : GoodF w) (o : Op) (ho : ∃ l ∈ w.scripts, o ∈ l) :
+    GoodF (w.applyOp o).1 := by
+  obtain ⟨l, hl, hol⟩ := ho
+  have hop := h.g.sc.scriptOp hl hol
+  have hnc := opSC_not_create hop
+  have r : C02V.swr (w.applyOp o).1 = C02V.swr w := C02V.swr_applyOp w o hnc
+  have hscr : (w.applyOp o).1.scripts = w.scripts := C02V.scr_applyOp w o
+  have hres : hasRes (w.applyOp o).1 = true → hasRes w = true :=
+    fun hr => by rw [← hasRes_of_swr r]; exact hr
+  have hnb : ¬ NoBatch (w.applyOp o).1 → ¬ NoBatch w := fun hn hb => hn ((noBatch_of_swr r).mpr hb)
+  have hgci : ¬ NoBatch (w.applyOp o).1 → GCI (w.applyOp o).1 := by
+    intro hn
+    obtain ⟨h1, h2⟩ := ci_es_applyOps [o] w (h.c (hnb hn)) (h.gci (hnb hn)).2
+      (fun op hop => by rw [List.mem_singleton] at hop; subst hop; exact ⟨l, hl, hol⟩)
+    have e : w.applyOps [o] = (w.applyOp o).1.addRes (w.applyOp o).2 := rfl
+    rw [e] at h1 h2
+    exact ⟨ci_frame (v := es ((w.applyOp o).1.addRes (w.applyOp o).2) []) (v' := es (w.applyOp o).1 [])
+      h1 rfl rfl rfl rfl rfl, ⟨h2.sc.of_sw rfl, scrB_of_kind rfl (fun _ => rfl) h2.scrB⟩⟩
+  refine ⟨h.g.applyOpG o hop h.i ⟨l, hl, hol⟩,
+    fun hr => inv11_es_applyOp1 (h.r (hres hr)) o ((h.s (hres hr)).opsOK l hl o hol) hnc,
+    fun hr => (h.s (hres hr)).of_swr r hscr, fun hn => (hgci hn).1,
+    fun hn => ⟨(hgci hn).2.scrB, sizesPos_of_swr r (h.cs (hnb hn)).2⟩, ?_⟩
+  exact (h.i.step (istep_applyOp w o hnc)).step ⟨rfl, C20W.Pv.of_same rfl⟩
+
+/-- a re-wiring issued from outside (admissible, leaves the world in the scope) -/
+theorem wakeF_rewire {w : World} (h : GoodF w) (hi : Ini w) (x : Nat) (ups : List Nat)
+    (hok : RewOK w x ups) (hfin : SC (w.rewire x ups)) :
+    GoodF (w.rewire x ups) ∧ Ini (w.rewire x ups) := by
+  have r : C02V.swr (w.rewire x ups) = C02V.swr w := C02V.swr_rewire w x ups
+  have hscr : (w.rewire x ups).scripts = w.scripts := C02V.scr_rewire w x ups
+  have hres : hasRes (w.rewire x ups) = true → hasRes w = true :=
+    fun hr => by rw [← hasRes_of_swr r]; exact hr
+  have hnb : ¬ NoBatch (w.rewire x ups) → ¬ NoBatch w := fun hn hb => hn ((noBatch_of_swr r).mpr hb)
+  have hi' : Ini (w.rewire x ups) := hi.step ⟨hscr, C20W.Pv_applyOp w (.rewire x ups) rfl⟩
+  refine ⟨⟨h.g.rewireD x ups hok hfin (fun z hz => hi.inited hz), fun hr => ?_,
+    fun hr => (h.s (hres hr)).of_swr r hscr, fun hn => ci_es_rewire (h.c (hnb hn)) x ups hfin,
+    fun hn => ⟨scrB_of_kind hscr (kind_rewire w x ups) (h.cs (hnb hn)).1,
+      sizesPos_of_swr r (h.cs (hnb hn)).2⟩, Or.inr hi'⟩, hi'⟩
+  rw [← es_rewire]
+  exact inv11_rewire (h.r (hres hr)) x ups
+
+/-- **Reachable states** (stage RF): initialisation, events, runs, beginnings of runs, operations
+issued from outside that some script contains, re-wirings issued from outside that are admissible
+and leave the world in the scope. -/
+inductive ReachF (w0 : World) : World → Prop
+  | init : ReachF w0 w0.simulateInit
+  | step {w w' : World} {e : Event} : ReachF w0 w → w.step = some (e, w') → ReachF w0 w'
+  | loop {w : World} (n : Nat) : ReachF w0 w → ReachF w0 (runLoop n w)
+  | run {w : World} (d : Int) : ReachF w0 w → ReachF w0 (w.runBegin d).1
+  | op {w : World} (o : Op) : ReachF w0 w → (∃ l ∈ w.scripts, o ∈ l) → ReachF w0 (w.applyOp o).1
+  | rew {w : World} (x : Nat) (ups : List Nat) : ReachF w0 w → RewOK w x ups →
+      SC (w.rewire x ups) → ReachF w0 (w.applyOp (.rewire x ups)).1
+
+/-- **RF3. `wakeF_reachable`**: the invariant holds in every reachable state. -/
+theorem wakeF_reachable {w0 w : World} (hs : S4R w0) (hi : C01.Inv w0.env) (h0 : 0 ≤ w0.now)
+    (he : EvOK w0) (hf : FreshA w0) (hreg : C20W.Reg w0) (hr : ReachF w0 w) : GoodF w ∧ Ini w := by
+  induction hr with
+  | init => exact ⟨wakeF_init hs hi h0 he hf hreg, ini_simulateInit hreg⟩
+  | step _ hst ih => exact ⟨wakeF_step ih.1 hst, ih.2.step (istep_step hst)⟩
+  | loop n _ ih => exact ⟨wakeF_runLoop n ih.1, ih.2.step (istep_runLoop n _)⟩
+  | run d _ ih => exact ⟨wakeF_runBegin ih.1 d, ih.2.step (istep_runBegin _ d)⟩
+  | @op w o _ ho ih =>
+    obtain ⟨l, hl, hol⟩ := ho
+    have hnc := opSC_not_create (ih.1.g.sc.scriptOp hl hol)
+    exact ⟨wakeF_applyOp ih.1 o ⟨l, hl, hol⟩,
+      (ih.2.step (istep_applyOp w o hnc)).step ⟨rfl, C20W.Pv.of_same rfl⟩⟩
+  | rew x ups _ hok hfin ih => exact wakeF_rewire ih.1 ih.2 x ups hok hfin
+
+theorem wakeF_w3 {w : World} (h : GoodF w) (d p : Nat) (hd : holdsD (w.dev d) = some p) :
+    Att w d ∨ BlockedW w d p ∨
+      ((w.dev d).waitingDS = true ∧ C11W.QueuedL w .rmCheck w.now pOtherHigh (-1)) :=
+  wake_w3_of h.g h.pend d p hd
+
+theorem blocked_genuinelyF {w : World} (h : GoodF w) (hc : ClockAdvances w) (d p : Nat)
+    (hr : ready w d p) : BlockedW w d p := blocked_genuinely_of h.g h.pend hc d p hr
+
+theorem no_lost_wakeupF {w : World} (h : GoodF w) (hc : ClockAdvances w) : Quiescent w :=
+  quiescent_of h.g h.pend hc
+
+/-- **The closed-world statement for the whole scope with mid-run re-wiring** (sources, handlers,
+processors with or without resources, buffers, gates, batchers, batches, one shared group;
+re-wiring in scripts and from outside): whenever the clock is about to advance no ready part could
+be handed over, in the wiring of that moment. -/
+theorem no_lost_wakeup_rewire_all_reachable {w0 w : World} (hs : S4R w0) (hi : C01.Inv w0.env)
+    (h0 : 0 ≤ w0.now) (he : EvOK w0) (hf : FreshA w0) (hreg : C20W.Reg w0) (hr : ReachF w0 w)
+    (hc : ClockAdvances w) : Quiescent w :=
+  no_lost_wakeupF (wakeF_reachable hs hi h0 he hf hreg hr).1 hc
+
+theorem s4r_reachable {w0 w : World} (hs : S4R w0) (hi : C01.Inv w0.env) (h0 : 0 ≤ w0.now)
+    (he : EvOK w0) (hf : FreshA w0) (hreg : C20W.Reg w0) (hr : ReachF w0 w) : S4R w :=
+  (wakeF_reachable hs hi h0 he hf hreg hr).1.s4r
+
+/-- What remains PARTIAL with respect to "mid-run re-wiring" in the whole scope is what is partial
+in stage C already: ONE group only (any number of group paths; re-wiring may connect and disconnect
+group paths, machines inside the group, the group output; a group input keeps `up = []`:
+`group_input_upstream_false`).  Not covered either: `create` (assets constructed mid-run). -/
+theorem no_lost_wakeup_rewire_all_partial {w0 w : World} (hs : S4R w0) (hi : C01.Inv w0.env)
+    (h0 : 0 ≤ w0.now) (he : EvOK w0) (hf : FreshA w0) (hreg : C20W.Reg w0) (hr : ReachF w0 w)
+    (hc : ClockAdvances w) : Quiescent w :=
+  no_lost_wakeup_rewire_all_reachable hs hi h0 he hf hreg hr hc
+
+/-! ### non-vacuity, stage RF -/
+
+/-- source 0 → batcher 1 (batches of 2) → slow sink 2 (cycle 5); sink 3 is not connected; at t = 5
+script 0 gives the batcher the free sink 3 as a second downstream neighbour: `rewire 3 [1]` -/
+def exBatRew : World :=
+  { env := envAt 5 0
+    scripts := [[.rewire 3 [1]]]
+    devs := [{ kind := .source, aid := 1, down := [1], cycle := 1, maxParts := some 7 },
+             { kind := .batcher, aid := 2, up := [0], down := [2], bsize := some 2 },
+             { kind := .sink, aid := 3, up := [1], cycle := 5 },
+             { kind := .sink, aid := 4 }],
+    assets := [.dev 0, .dev 1, .dev 2, .dev 3] }
+
+/-- two lines share one group (input 4, machine 5, output 6; paths 2 and 3); a second machine 9
+stands ready inside the group (already wired to the group output) but is not connected to the
+group input; at t = 5 script 0 connects it: `rewire 9 [4]` -/
+def exGrpRew : World :=
+  { env := envAt 5 0
+    scripts := [[.rewire 9 [4]]]
+    devs := [{ kind := .source, aid := 1, down := [2], cycle := 1, maxParts := some 3 },
+             { kind := .source, aid := 2, down := [3], cycle := 1, maxParts := some 3 },
+             { kind := .gpath, aid := 3, group := 0, up := [0], down := [7] },
+             { kind := .gpath, aid := 4, group := 0, up := [1], down := [8] },
+             { kind := .ginput, aid := 5, group := 0, down := [5] },
+             { kind := .handler, aid := 6, up := [4], down := [6], cycle := 10 },
+             { kind := .goutput, aid := 7, group := 0, up := [5, 9] },
+             { kind := .sink, aid := 8, up := [2] },
+             { kind := .sink, aid := 9, up := [3] },
+             { kind := .handler, aid := 10, down := [6], cycle := 10 }],
+    groups := [{ paths := [2, 3], input := 4, output := 6 }],
+    assets := [.dev 0, .dev 1, .dev 2, .dev 3, .dev 4, .dev 5, .dev 6, .dev 7, .dev 8, .dev 9] }
+
+/-- both are in the whole scope with re-wiring (batchers resp. group devices AND a re-wiring script),
+not in the scopes of the stages before -/
+theorem s4r_exBatRew : S4R exBatRew ∧ ¬ S2R exBatRew ∧ ¬ S4 exBatRew ∧ C20W.Reg exBatRew ∧
+    S4R exGrpRew ∧ ¬ S2R exGrpRew ∧ ¬ S4 exGrpRew ∧ C20W.Reg exGrpRew := by decide
+
+theorem freshA_exBatRew : FreshA exBatRew ∧ FreshA exGrpRew :=
+  ⟨⟨⟨rfl, rfl, rfl, rfl, by decide⟩, by decide, fun h => by cases h⟩,
+   ⟨⟨rfl, rfl, rfl, rfl, by decide⟩, by decide, fun h => by cases h⟩⟩
+
+/-- the hypotheses of the closed-world theorem of stage RF are satisfiable -/
+theorem goodF_exBatRew (n : Nat) : GoodF (runLoop n exBatRew.simulateInit) :=
+  (wakeF_reachable s4r_exBatRew.1 (by decide) (by decide) (evOK_envAt5 _ rfl) freshA_exBatRew.1
+    s4r_exBatRew.2.2.2.1 (.loop n .init)).1
+
+theorem goodF_exGrpRew (n : Nat) : GoodF (runLoop n exGrpRew.simulateInit) :=
+  (wakeF_reachable s4r_exBatRew.2.2.2.2.1 (by decide) (by decide) (evOK_envAt5 _ rfl)
+    freshA_exBatRew.2 s4r_exBatRew.2.2.2.2.2.2.2 (.loop n .init)).1
+
+/-- t = 4: the batcher holds the complete batch 4 and is flagged (the slow sink is busy until 7); the
+clock is about to advance; genuinely blocked -/
+example : (runLoop 10 exBatRew.simulateInit).now = 4 ∧ ClockAdvances (runLoop 10 exBatRew.simulateInit) ∧
+    ready (runLoop 10 exBatRew.simulateInit) 1 4 ∧ BlockedW (runLoop 10 exBatRew.simulateInit) 1 4 ∧
+    Quiescent (runLoop 10 exBatRew.simulateInit) := by decide
+
+example : Quiescent (runLoop 10 exBatRew.simulateInit) := no_lost_wakeupF (goodF_exBatRew 10) (by decide)
+
+/-- t = 5, right after the script: the free sink 3 is connected, the batcher is no longer flagged and
+its attempt is queued for this instant; one event later the batch [3, 5] has been delivered to the
+new sink, still at t = 5 -/
+example : (runLoop 13 exBatRew.simulateInit).now = 5 ∧
+    ((runLoop 13 exBatRew.simulateInit).dev 1).down = [2, 3] ∧
+    ((runLoop 13 exBatRew.simulateInit).dev 1).waitingDS = false ∧
+    Att (runLoop 13 exBatRew.simulateInit) 1 ∧
+    (runLoop 14 exBatRew.simulateInit).now = 5 ∧
+    (runLoop 14 exBatRew.simulateInit).delivered = [0, 2, 3, 5] ∧
+    S4R (runLoop 14 exBatRew.simulateInit) := by decide
+
+/-- the group: t = 2, both sources are blocked in front of the group (its only machine is busy until
+11) and flagged; the clock is about to advance to 5; genuinely blocked -/
+example : (runLoop 6 exGrpRew.simulateInit).now = 2 ∧ ClockAdvances (runLoop 6 exGrpRew.simulateInit) ∧
+    ready (runLoop 6 exGrpRew.simulateInit) 0 2 ∧ ready (runLoop 6 exGrpRew.simulateInit) 1 1 ∧
+    BlockedW (runLoop 6 exGrpRew.simulateInit) 0 2 ∧ BlockedW (runLoop 6 exGrpRew.simulateInit) 1 1 ∧
+    Quiescent (runLoop 6 exGrpRew.simulateInit) := by decide
+
+example : Quiescent (runLoop 6 exGrpRew.simulateInit) := no_lost_wakeupF (goodF_exGrpRew 6) (by decide)
+
+/-- t = 5, right after the script has connected the second machine to the group input: the
+notification has gone through the group input to BOTH group paths, both sources have their attempts
+queued for this instant; one event later a part has moved into the new machine, at t = 5 -/
+example : (runLoop 7 exGrpRew.simulateInit).now = 5 ∧
+    ((runLoop 7 exGrpRew.simulateInit).dev 4).down = [5, 9] ∧
+    Att (runLoop 7 exGrpRew.simulateInit) 0 ∧ Att (runLoop 7 exGrpRew.simulateInit) 1 ∧
+    (runLoop 8 exGrpRew.simulateInit).now = 5 ∧
+    ((runLoop 8 exGrpRew.simulateInit).dev 9).part = some 2 ∧
+    S4R (runLoop 8 exGrpRew.simulateInit) := by decide
+
+/-- the shared group again (machine 5, cycle 1); the sink 7 of the first line is slow (cycle 20); a
+free sink 9 is not connected; at t = 5 script 0 makes it a second downstream neighbour OF THE GROUP
+PATH 2 of the first line: `rewire 9 [2]` -/
+def exPathRew : World :=
+  { env := envAt 5 0
+    scripts := [[.rewire 9 [2]]]
+    devs := [{ kind := .source, aid := 1, down := [2], cycle := 1, maxParts := some 3 },
+             { kind := .source, aid := 2, down := [3], cycle := 1, maxParts := some 3 },
+             { kind := .gpath, aid := 3, group := 0, up := [0], down := [7] },
+             { kind := .gpath, aid := 4, group := 0, up := [1], down := [8] },
+             { kind := .ginput, aid := 5, group := 0, down := [5] },
+             { kind := .handler, aid := 6, up := [4], down := [6], cycle := 1 },
+             { kind := .goutput, aid := 7, group := 0, up := [5] },
+             { kind := .sink, aid := 8, up := [2], cycle := 20 },
+             { kind := .sink, aid := 9, up := [3], cycle := 20 },
+             { kind := .sink, aid := 10 }],
+    groups := [{ paths := [2, 3], input := 4, output := 6 }],
+    assets := [.dev 0, .dev 1, .dev 2, .dev 3, .dev 4, .dev 5, .dev 6, .dev 7, .dev 8, .dev 9] }
+
+theorem s4r_exPathRew : S4R exPathRew ∧ C20W.Reg exPathRew ∧ RewOK exPathRew 9 [2] := by decide
+
+theorem goodF_exPathRew (n : Nat) : GoodF (runLoop n exPathRew.simulateInit) :=
+  (wakeF_reachable s4r_exPathRew.1 (by decide) (by decide) (evOK_envAt5 _ rfl)
+    ⟨⟨rfl, rfl, rfl, rfl, by decide⟩, by decide, fun h => by cases h⟩ s4r_exPathRew.2.1
+    (.loop n .init)).1
+
+/-- t = 3: the machine INSIDE the group holds part 2 — which came in through group path 2 (its stack)
+and can leave towards the downstream devices of that path only — and is flagged: the sink 7 is busy
+until 22; both sources are blocked in front of the group; the clock is about to advance -/
+example : (runLoop 14 exPathRew.simulateInit).now = 3 ∧
+    ClockAdvances (runLoop 14 exPathRew.simulateInit) ∧
+    ((runLoop 14 exPathRew.simulateInit).part 2).stack = [2] ∧
+    ready (runLoop 14 exPathRew.simulateInit) 5 2 ∧ BlockedW (runLoop 14 exPathRew.simulateInit) 5 2 ∧
+    Quiescent (runLoop 14 exPathRew.simulateInit) := by decide
+
+example : Quiescent (runLoop 14 exPathRew.simulateInit) :=
+  no_lost_wakeupF (goodF_exPathRew 14) (by decide)
+
+/-- t = 5, right after the script: the group path has the free sink 9 as a second downstream
+neighbour; the notification has gone from the path through the group output to the machine inside,
+whose attempt is queued for this instant; one event later — at t = 5 — part 2 has been delivered
+to the new sink -/
+example : (runLoop 15 exPathRew.simulateInit).now = 5 ∧
+    ((runLoop 15 exPathRew.simulateInit).dev 2).down = [7, 9] ∧
+    ((runLoop 15 exPathRew.simulateInit).dev 5).waitingDS = false ∧
+    Att (runLoop 15 exPathRew.simulateInit) 5 ∧
+    (runLoop 16 exPathRew.simulateInit).now = 5 ∧
+    (runLoop 16 exPathRew.simulateInit).delivered = [0, 2] := by decide
 
 end C03W
 end SimProc
